@@ -12,2396 +12,996 @@ Definition show_fres (r : fres) : string :=
   end.
 Definition check (rs : list rune) : string := digest (show_fres (format_res rs)).
 Definition full (rs : list rune) : string := show_fres (format_res rs).
-Eval vm_compute in ("<<<M265>>>" ++ check (runes_of_ascii "MetaData MetaDataX
+Eval vm_compute in ("<<<M1551>>>" ++ check (runes_of_ascii "// top
+options // c0a
+  // c0b
+{ // c1
+LittleEndian
+    // c2
+=
+    // c3
+false // c4a
+  // c4b
+; // c5a
+  // c5b
+StringPrefixLenType
+    // c6
+= u8
+    // c8
+; // c9a
+  // c9b
+ArrayPrefixLenType
+    // c10
+= // c11a
+  // c11b
+u8 ; // c13a
+  // c13b
+FixedStringPadFromLeft // c14a
+  // c14b
+= // c15a
+  // c15b
+true ;
+    // c17
+FixedStringPadChar // c18a
+  // c18b
+=
+    // c19
+' ' ;
+    // c21
+} // c22a
+  // c22b
+packet
+    // c23
+Trade
+    // c24
+{ // c25a
+  // c25b
+zchar[ 2
+    // c27
+] Side2 // c29a
+  // c29b
+, i8 // c31
+seqNo ,
+    // c33
+} // c34
+packet
+    // c35
+Party // c36
+{ // c37
+uint32 // c38
+price ,
+    // c40
+}
+    // c41
+packet
+    // c42
+Ack { // c44
+@rightPad // c45a
+  // c45b
+(
+    // c46
+'\x00'
+    // c47
+) // c48
+char[ // c49
+6
+    // c50
+]
+    // c51
+x // c52a
+  // c52b
+, // c53
+repeat
+    // c54
+char[ // c55
+4 ] Flags // c58a
+  // c58b
+, // c59a
+  // c59b
+zchar[
+    // c60
+9 // c61
+] // c62
+f1 // c63
+,
+    // c64
+} packet
+    // c66
+Cancel // c67a
+  // c67b
+{ Ack
+    // c69
+, // c70
+} packet // c72a
+  // c72b
+Heartbeat // c73a
+  // c73b
+{ string
+    // c75
+Px // c76
+, string // c78
+Acct
+    // c79
+, f64 // c81
+Side2 , InQty24 // c84a
+  // c84b
+{ // c85
+i16 seqNo , repeat
+    // c89
+i32 // c90a
+  // c90b
+Flags
+    // c91
+, // c92
+} , // c94
+}
+    // c95
+root
+    // c96
+packet // c97
+Logon // c98a
+  // c98b
+{ // c99a
+  // c99b
+Trade // c100a
+  // c100b
+,
+    // c101
+i64 venue // c103a
+  // c103b
+,
+    // c104
+u32
+    // c105
+x // c106a
+  // c106b
+,
+    // c107
+u8 seqNo , // c110a
+  // c110b
+match // c111a
+  // c111b
+seqNo // c112
+as // c113a
+  // c113b
+Body // c114
 {
-    Foo BodyLength // packet A { u8 x, }
-, As T , }options { calculatedFrom = true  ;// " ++ [27880; 37322]%N ++ runes_of_ascii "
-Header
-= true}
-// trailing space 
-// c
-packet tag {	@leftPad (
-    '\x00') @lengthOf( Foo)// a // b
+    // c115
+[ // c116
+1 // c117
+,
+    // c118
+164 // c119
+]
+    // c120
+: Ack , 31 : // c125a
+  // c125b
+Cancel // c126a
+  // c126b
+, // c127a
+  // c127b
+23 : Heartbeat
+    // c130
+,
+    // c131
+64 // c132a
+  // c132b
+: Party // c134
+,
+    // c135
+}
+    // c136
+, }
+    // c138
+")).
+Eval vm_compute in ("<<<M1558>>>" ++ check (runes_of_ascii "// top
+options // c0a
+  // c0b
+{ // c1
+LittleEndian // c2a
+  // c2b
+= // c3
+false // c4a
+  // c4b
+; // c5
+ArrayPrefixLenType // c6
+= // c7
+u8 ; // c9
+FixedStringPadChar // c10a
+  // c10b
+=
+    // c11
+'0' // c12
+;
+    // c13
+}
+    // c14
+packet Order // c16a
+  // c16b
+{ // c17
+InNote94 // c18a
+  // c18b
+{ f32 f1 // c21
+, f64 // c23a
+  // c23b
+Side2 ,
+    // c25
+repeat InTail47 { // c28a
+  // c28b
+char[]
+    // c29
+seqNo // c30a
+  // c30b
+,
+    // c31
+char[] // c32a
+  // c32b
+Tail , // c34a
+  // c34b
+char[] // c35
+lastPx , // c37a
+  // c37b
+}
+    // c38
+, // c39a
+  // c39b
+} , // c41a
+  // c41b
+zchar[
+    // c42
+7
+    // c43
+]
+    // c44
+f1
+    // c45
+, u8 // c47a
+  // c47b
+Side2
+    // c48
+, // c49a
+  // c49b
+} // c50
+root packet // c52a
+  // c52b
+Reject
+    // c53
+{ repeat // c55a
+  // c55b
+char[ // c56
+4 // c57
+] // c58
+Flags , // c60a
+  // c60b
+InPrice63 // c61
+{ InSeqno41 // c63
+{ // c64a
+  // c64b
+repeat
+    // c65
+i8 OrderId // c67a
+  // c67b
+, // c68a
+  // c68b
+repeat // c69
+i32
+    // c70
+clOrdID // c71
+, // c72
+char[ // c73
+9
+    // c74
+]
+    // c75
+tag7
+    // c76
+, // c77a
+  // c77b
+char[] // c78a
+  // c78b
+lastPx // c79a
+  // c79b
+,
+    // c80
+} // c81
+, // c82
+Order
+    // c83
+, uint8 Side2 , // c87a
+  // c87b
+}
+    // c88
+, // c89a
+  // c89b
+} ")).
+Eval vm_compute in ("<<<M358>>>" ++ check (runes_of_ascii "packet	matchKey { } packet rootA {} root packet lengthOf { // trailing space 
 @tag(
-    42)string body
-    ,
-@calculatedFrom(""abc"")
-char[ 00
-]	len,@calculatedFrom( """ ++ [128512]%N ++ runes_of_ascii """
-)	repeat tag ,match msg_type as // @lengthOf(
-Header {	65535
-//
-// @lengthOf(
-: roots , ""abc"" //
-: string_ , [ 007 , 0
-    // `tick` ""quote"" 'q'
-    ,	007 ]:
+0 //x
+)uint16 repeatCount
+    , //x
+uint32 rootA @calculatedFrom(""it's""
+// packet A { u8 x, }
+// `tick` ""quote"" 'q'
+)
+,
+//	t
+// a // b
+string uint8x /// triple
+,  u128@calculatedFrom(
+""" ++ [28040; 24687]%N ++ runes_of_ascii """ ) ,@leftPad
+( '\x00' ) u  `a\` , @leftPad( ' ' ) @calculatedFrom(
+""1"" ) @lengthOf( int )match msg_type
 // " ++ [128512]%N ++ runes_of_ascii " emoji
 // a // b
-zchar 255
-    //
-    : Packet [ ""packet"" , 0 ,
-    ""\" ++ [233]%N ++ runes_of_ascii """ , ""x y"" , 65535 , """ ++ [233]%N ++ runes_of_ascii "t" ++ [233]%N ++ runes_of_ascii """ , 0123456789
+as Pad{
+""abc""// " ++ [27880; 37322]%N ++ runes_of_ascii "
+: asx }
+    , options1 {
+    char[]  metadata // trailing space 
+, Logon@lengthOf( zchar ) , repeatCount {
+zchar[255 ] tag
+    ,x_y_z msg_type,// `tick` ""quote"" 'q'
+pack, MetaDataX @lengthOf(  falsey )
+    , }
+, zchar  @lengthOf( Header  )
+,  } ,@tag( 42 ) char[
+    007 ] i64_
 ,
-7]
-: //
-matchKey} ,repeat
-int64
-metadata`
-`
-,
-i64_
-`` //
-, char[42 ] MetaDataX
-// `tick` ""quote"" 'q'
-// c
-@calculatedFrom( ""CRC32"" ) , zchar[ 255 ]
-    //
-    roots	@lengthOf(
-    options1
-    ) `two words` , msg_type @calculatedFrom(
-    //x
-    ""\n""  ) ,
-    u len , } packet x {
-} packet falsey
-{  @calculatedFrom(
-""a	b""
-)
-    int64 falsey
-    `{ , }`,
-    repeat f64 crc// trailing space 
-,
-    @tag(	255) uint32 // a // b
-chars `" ++ [28040; 24687; 31867; 22411]%N ++ runes_of_ascii "` , @leftPad ( '\x00'	)@lengthOf( falsey )
-@calculatedFrom(	""a	b"" )  stringy { zchar[ // " ++ [27880; 37322]%N ++ runes_of_ascii "
-7	] Pad `line1
-line2` , string
-    pack,
-    // @lengthOf(
-    float64 string_ ,	},	repeat rootA{	match Logon as
-    /// triple
-    o // " ++ [27880; 37322]%N ++ runes_of_ascii "
-{ 007 //x
-:leftPad
-    , 0	: T , ""CRC32"" :
-T
-[ ""a	b"" ]: Logon , } ,
-    match // @lengthOf(
-x_y_z as
-_x
-{ 10
-:
-metadata , """ ++ [233]%N ++ runes_of_ascii "t" ++ [233]%N ++ runes_of_ascii """
-    : string_,  } ,} ,
-// c
-/// triple
-o{ options1
-    @calculatedFrom("""" ) ,	repeat i32
-body, } , @tag(1 /// triple
-) match packetx// " ++ [27880; 37322]%N ++ runes_of_ascii "
-as rootA
-{
-""" ++ [128512]%N ++ runes_of_ascii """:
-// `tick` ""quote"" 'q'
-//x
-zchar  ,
-    7 :
-    zchar  ,
-[ 0 , 42,
-""a\\"" , 0123456789	, ""it's""
-,3 //	t
-,
-""abc""	, 0123456789	]: lengthOf,
-// " ++ [27880; 37322]%N ++ runes_of_ascii "
-//x
-0
 // trailing space 
-// " ++ [27880; 37322]%N ++ runes_of_ascii "
-: _x, ""1"":
-    Header , }
-    , @rightPad
-    // c
-    ( ) repeat pack {
-match MetaDataX
-    as o { ""a\""b"" : Pad
-[ ""a\""b"" ]:A , 1
-: rootA  , }
-    , match	calculatedFrom as T/// triple
-{ 65535  : stringy , // " ++ [27880; 37322]%N ++ runes_of_ascii "
-65535 :  Packet ,
-    [
-007 , ""CRC32""
-    , 00 , 3 ,
-    65535
-,	""x y"" ,65535 ]: matchKey/// triple
-, 007
-: rootA
-,// @lengthOf(
-}, },char[] u128
-,// a // b
-}")).
-Eval vm_compute in ("<<<M1161>>>" ++ check (runes_of_ascii "
-root  packet MetaDataX	{int32
-Logon,
-}packet
-    roots { match
-calculatedFrom as i8i8 { [	""// no comment""	,""\" ++ [233]%N ++ runes_of_ascii """, // c
-10 , ""\n"" , ""{,}"" , //	t
-65535
-, ""x y"" ] : // " ++ [128512]%N ++ runes_of_ascii " emoji
-As , 10 :
-    o ,
-""\" ++ [233]%N ++ runes_of_ascii """
-: MetaDataX
-} , @leftPad ( '\x00' )
-@lengthOf(
-a1 )
-    // `tick` ""quote"" 'q'
-    @calculatedFrom(""a\\"" ) uint16 float @calculatedFrom( ""`tick`"") //	t
-,string BodyLength
-    @calculatedFrom(""x y""
-) ,calculatedFrom stringy // packet A { u8 x, }
-,
-@lengthOf( a1 )
-    @tag(	65535)char[]
-falsey `// not a comment`
-, @calculatedFrom( """ ++ [233]%N ++ runes_of_ascii "t" ++ [233]%N ++ runes_of_ascii """
-    )char[ 255 ]/// triple
-msg_type ,
-o , @rightPad ( '0' ) // trailing space 
-repeat rootA { x {  repeat u8 Z9_
-    `
-` ,	char[255 ] // " ++ [128512]%N ++ runes_of_ascii " emoji
-leftPad , int32 len`line1
-line2`
-    , } ,// `tick` ""quote"" 'q'
-repeat uint8x
-{ char[] rootA @lengthOf(Z9_ ), match  zchar as x_y_z {	0
-: Z9_	, [
-007
-, 007
-    , 1 ,007,""""
-    , ""1"" ]
-    :
-packetx
-    ,	[""1"" , """"
-]
-: len , """" :BodyLength ,
-    [ ""// no comment""
-    ,
-    //	t
-    """ ++ [128512]%N ++ runes_of_ascii """ ,	""`tick`"" ] :
-chars ,
-10: T } , },
-    // " ++ [27880; 37322]%N ++ runes_of_ascii "
-    a1 @lengthOf( body
-) ,  }
-    //x
-    , }MetaData// c
-crc {  }
-    options{ rootA =
-'\x00' }
-packet lengthOf
-{ char[] float// " ++ [128512]%N ++ runes_of_ascii " emoji
-`" ++ [28040; 24687; 31867; 22411]%N ++ runes_of_ascii "` ,
-char[] falsey , repeatCount	`crlf
-line` ,// packet A { u8 x, }
-uint32 Foo
-@lengthOf( string_ ) `doc`, @calculatedFrom(// @lengthOf(
-""\n"" )
-    f64 Pad @lengthOf(
-    i8i8) ,
-@lengthOf(
-i8i8) x_y_z // `tick` ""quote"" 'q'
-x
-    ,@calculatedFrom(
-    ""1""
-// packet A { u8 x, }
-// packet A { u8 x, }
-) pack
-{ float64 leftPad `crlf
-line`
-, repeat int {	match packetx
-as repeatCount {// " ++ [27880; 37322]%N ++ runes_of_ascii "
-[""a\""b"" ,
-    // c
-    42 ]  : repeatCount // a // b
-,
-    3 : // " ++ [128512]%N ++ runes_of_ascii " emoji
-leftPad ,
-    ""it's""
-:i8i8
-, ""packet"": x_y_z ""`tick`""
-:
-asx , 3
-    : Foo, } , i32 //	t
-options1 `" ++ [233]%N ++ runes_of_ascii "`
-    ,repeat int i64_
-    ,
-    }
-    ,
-} , }
-")).
-Eval vm_compute in ("<<<M4169>>>" ++ check (runes_of_ascii "
-packet
-    body
-
-    {@tag(
-
-00	) 
-options1
-	@calculatedFrom(""1"")
-
-,
-    @calculatedFrom(
-
-    // " ++ [27880; 37322]%N ++ runes_of_ascii "
-	// packet A { u8 x, }
-  ""abc""  )uint8x
-{ o
-
 //	t
-  ,// c
-  u16 float `a\`
-,
-
-    },
-	@tag(1 )
-u  `u8 x,`
-	,
-crc {
-	zchar 
-{
-
-match	/// triple
-i8i8 as 	 // trailing space 
-int
-
-    {
-
-    ""`tick`""
-:
-	x_y_z,} 
-,
-	repeat
-    uint8 
-f32a ,
-	}
-,	// c
-
-	i8
-As
-@lengthOf(
-Foo )	`it's`
-,charz
-	@calculatedFrom(
-    ""it's""
-
-)  , 
-char[
-	4294967296 ] Packet
-`it's`
-
-    , }  ,  @lengthOf(
-
-    Z9_
-    )
-crc
-    {repeat
-options1{
-
-match 	 // `tick` ""quote"" 'q'
-	MetaDataX
-as
-	pack
-
-{  [
-    //	t
-		//
-""a\\""
-    ] :
-    i8i8  , 
-""a\\"":
-	falsey
-
-[ ""packet""  ]
-	: Logon
-
-    , [4294967296
-	,  ""abc""
-, ""{,}""
-    ,//x
-  3 ,""" ++ [128512]%N ++ runes_of_ascii """,  7,
-
-00 ,7 ]
-	:
-matchKey
-    ,0
-	:	trueish, } ,
-
-x_y_z repeatCount , repeat uint16
-
-    repeatCount  //
-  ,}
-,  options1
-, // " ++ [128512]%N ++ runes_of_ascii " emoji
-falsey {
-
-    char[]
-
-    u
-`u8 x,`	, }  , }
-
-    , 
-}
-root
-	packet	Pad { match 
-o	// trailing space 
-  as
-
-a1{[	"""" 
-,
-    ""packet""
-	    // c
-    	,
-    1
-    , 
-    //	t
-    0123456789  // trailing space 
-	  ]
-:
-charz ,  // trailing space 
-    ""a\""b"": 
-x_y_z , [
-
-    ""CRC32"",
-	007 , 255]	:	float 
-,
-    4294967296:  int 
-,
-    ""{,}""
-
-:
-
-stringy  , 4294967296: A	, } 
-,
-	@rightPad
-
-    ( )@tag( 7 //
-) match 	 // packet A { u8 x, }
-      uint8x
-as
-    crc{ 255
-
-    :
-    pack
-, },
-	repeat  int8  i8i8
-
-, }  packet 
-a1 {
-    string	As
-@calculatedFrom(	""a	b""  )
-, 
-}
-MetaData u  {
-	} 
-	    //x
-	root packet f32a
-    { }
-")).
-Eval vm_compute in ("<<<M1155>>>" ++ check (runes_of_ascii "packet u128 {
-// packet A { u8 x, }
-// c
-@rightPad (
-' ')uint8x { zchar {
-match u8x
-as
-Logon {007 // @lengthOf(
-: Packet
-    //x
-    , [ 255 ,
-//
-//x
-""`tick`"" ,00 , 42 ,
-""a\\""
-    ,	3 ] :
+@lengthOf( As
+) match crc  as/// triple
+MetaDataX {65535 :leftPad
+""a\""b"" : BodyLength , 42:	crc
+    ,
+    // " ++ [27880; 37322]%N ++ runes_of_ascii "
+    0123456789: body , ""abc""
+:	stringy
+,	""CRC32"":
+    x_y_z,} ,
+    //
+    int32 Header @lengthOf(
 // @lengthOf(
-// a // b
-int ,},  metadata `" ++ [28040; 24687; 31867; 22411]%N ++ runes_of_ascii "` ,
-repeat char[]Header
-    , a1, }
-, match // packet A { u8 x, }
-leftPad as rootA{
-0123456789 : int,0 : pack, }, tag { // " ++ [27880; 37322]%N ++ runes_of_ascii "
-string_ ,
-    pack calculatedFrom  , },// packet A { u8 x, }
-} ,
-    //x
-    zchar[
-255] msg_type , i32// c
-x, match options1 // @lengthOf(
-as
-    options1 {  10// @lengthOf(
-: //
-zchar,
-42 : pack ,
-[  ""a\\"" ] :
-    // @lengthOf(
-    As [42
-,
-    ""a\""b"" ] : asx
-, [
-    10 ] :a1 ,
-[
-    00]
-:
-    // trailing space 
-    chars
-    // " ++ [27880; 37322]%N ++ runes_of_ascii "
-    , } ,
-// `tick` ""quote"" 'q'
-//	t
-char[0] Header @lengthOf(
-chars) // @lengthOf(
-`it's` ,
 //
-//	t
-match//	t
-x_y_z as
-    u8x {  65535 : Logon
-    ,""" ++ [233]%N ++ runes_of_ascii "t" ++ [233]%N ++ runes_of_ascii """ :
-Header ,
-    ""a	b"":
-metadata ,	[
-    255,
-""a\\""
-// a // b
-// c
-, ""a	b""
-, //x
-1 , ""{,}"" , """",255 , """ ++ [28040; 24687]%N ++ runes_of_ascii """ ]: f32a
-//	t
-// c
-, 3	:
-len // @lengthOf(
-}, @leftPad
-( ) @calculatedFrom( ""a\\"") int64 leftPad
-`" ++ [233]%N ++ runes_of_ascii "` , @calculatedFrom( ""packet"" )
-    @tag(
-10 )  @calculatedFrom(""a\\"" ) string Packet
-    @lengthOf( BodyLength ),//x
-@leftPad ( // @lengthOf(
-'0' )repeat
-char[]
-//	t
-// trailing space 
-Logon
+asx // " ++ [27880; 37322]%N ++ runes_of_ascii "
+) , } packet packetx
+{	}root packet
+float//	t
+{ @tag( 1 ) @lengthOf(
+_x) @leftPad ( '0'
+    )
+repeat // c
+i64_ ,}
+")).
+Eval vm_compute in ("<<<M196>>>" ++ check (runes_of_ascii "/// triple
+MetaData roots
+    { string
+Z9_ `say ""hi""`
+    //
+    ,o
+    tag ,char[4294967296 // " ++ [128512]%N ++ runes_of_ascii " emoji
+] body `crlf
+line`
 ,
-@tag( 00
-) match
-u8x as Z9_ {
-[ 10 ] : lengthOf
-    0123456789 : _x, ""packet"" : i64_, } , }")).
-Eval vm_compute in ("<<<M4032>>>" ++ check (runes_of_ascii "packet lengthOf {
-    matchKey `doc`,
-    i8i8 {
-        match crc as zchar {
-            [1, ""abc"", 0, 0123456789, 65535] : chars,
-            ""\n"" : uint8x,
-            ""a\""b"" : int,
-            [
-                ""`tick`"", ""a	b"", ""a	b"", 4294967296, 4294967296,
-                """", ""a\""b""
-            ] : string_,
-            0123456789 : A,
-            ""packet"" : asx,
-        },
-        char[00] u8x `u8 x,`,
-        u8x {
-            uint32 float @calculatedFrom(""{,}""),
-            //	t
-            // " ++ [128512]%N ++ runes_of_ascii " emoji
-            char[0] zchar,
-        },
-        falsey @calculatedFrom(""" ++ [128512]%N ++ runes_of_ascii """),
-    },
-    @calculatedFrom(""1"")
-    zchar[255] metadata @lengthOf(packetx),
-    Header @calculatedFrom(""CRC32""),
-    // c
+    _x lengthOf `tab	here` , } options { repeatCount	= ""x y"" ; T = """ ++ [28040; 24687]%N ++ runes_of_ascii """ }
+    /// triple
+    packet int{ @calculatedFrom( ""CRC32"" )int64 f32a, roots @calculatedFrom( ""it's"" )`` ,@calculatedFrom(""a\\"" )@tag( 007 ) char[ 255//	t
+] crc @lengthOf(packetx )
+    ,
+match
+    Pad as string_ { [""\" ++ [233]%N ++ runes_of_ascii """,3
+    // " ++ [27880; 37322]%N ++ runes_of_ascii "
+    ] : lengthOf  ,[ 42
+    ]:
+// packet A { u8 x, }
+// packet A { u8 x, }
+body ,
+7 : i8i8
+    ,0123456789:
+options1
+,//x
+[ 00 ] : Z9_ ,  }// @lengthOf(
+,float
+,// " ++ [27880; 37322]%N ++ runes_of_ascii "
+} MetaData zchar
+    {
+    zchar[
+3 ]
+    options1
+    `line1
+line2` ,}  packet asx
+{ zchar[
+    42// " ++ [128512]%N ++ runes_of_ascii " emoji
+]
+falsey ,	@calculatedFrom(
+""1""
+)
+repeat string As `" ++ [233]%N ++ runes_of_ascii "`, char[] trueish
+    , int32 Header , repeat  stringy
+`crlf
+line`, string
+x_y_z,
+f64 T
+//x
+// `tick` ""quote"" 'q'
+, uint8x
+@lengthOf( charz
+)
+    `a\` , }")).
+Eval vm_compute in ("<<<M1587>>>" ++ check (runes_of_ascii "  packet
+	Packet {  @tag(	65535)
+
+    @leftPad
+
+    (
+
+    ' '  )@tag(
+
+255
+    /// triple
+  ) uint8  len @lengthOf( 
+T
+
+)
+
+    ,
+int32 u8x ,@lengthOf( rootA) float32
+
+    i64_
+    `u8 x,`  ,} packet  // c
+  int
+	{
+	repeat i8i8
+    {  lengthOf
+
+@lengthOf(
+int
+) 
+`line1
+line2`,  string falsey`
+` ,
+
+    uint16 
+    // `tick` ""quote"" 'q'
+// trailing space 
+    roots	@lengthOf(charz)
+    ,
+
+    } ,
+	} options
+
+{Foo=  ' '
+    len
+= """ ++ [128512]%N ++ runes_of_ascii """ 
+; 
+chars
+=
+    u64
+; 
+	//x
+//
+  uint8x // a // b
+
+=
+
+""" ++ [128512]%N ++ runes_of_ascii """
     // trailing space 
-    float @lengthOf(crc) ``,
-    @tag(42)
-    @lengthOf(A)
-    @lengthOf(u128)
-    stringy `" ++ [233]%N ++ runes_of_ascii "`,
+
+	;
+metadata
+    = ' '
+
+;
+    }
+        // " ++ [27880; 37322]%N ++ runes_of_ascii "
+	MetaData  Header 
+	    // " ++ [27880; 37322]%N ++ runes_of_ascii "
+	{
+
+    i16 
+matchKey
+	,  Packet
+
+    Packet `u8 x,`
+,
+    }packet
+
+    u128  {	uint8x 
+@lengthOf(	charz  ) 
+`u8 x,` ,
+
+    }
+")).
+Eval vm_compute in ("<<<M1983>>>" ++ check (runes_of_ascii "// trailing space 
+packet tag {
+    @rightPad('0')
+    u128,
+    @lengthOf(MetaDataX)
+    // c
+    leftPad,// packet A { u8 x, }
+    @tag(1)
+    calculatedFrom @lengthOf(Logon),
+}
+
+packet string_ {
+}
+
+packet u128 {
+    char[0] chars `say ""hi""`,
+    int,
     @leftPad('0')
-    char[4294967296] float,
-    u `" ++ [233]%N ++ runes_of_ascii "`,
-    @lengthOf(falsey)
-    // @lengthOf(
-    @lengthOf(lengthOf)
-    repeat f32 matchKey `line1
+    T {
+        repeat zchar[255] int,
+        zchar stringy,
+    },
+    repeat zchar {
+        match leftPad as packetx {
+            [""`tick`""] : lengthOf,
+            [7, """ ++ [128512]%N ++ runes_of_ascii """, 00, ""x y"", ""packet""] : stringy,
+            [42, ""\n"", ""it's"", 65535, 1] : msg_type,
+            ""packet"" : a1,
+        },
+        u16 int,
+        repeat x_y_z float,
+        repeat u64 A `a\`,
+    },
+}")).
+Eval vm_compute in ("<<<M2047>>>" ++ check (runes_of_ascii "  // top
+options
+// c0
+	{  charz  // c2
+	=  // c3a
+// c3b
+  	f64 	 // c4a
+    // c4b
+    ;	// c5a
+	// c5b
+  	metadata =	// c7
+	  7 	 // c8a
+    	// c8b
+		; // c9a
+    // c9b
+    }  // c10
+  	options
+// c11
+  { 
+
+    // c12
+      u128 	 // c13
+= 
+
+    // c14
+
+  10 	 // c15
+    options1  // c16
+=  // c17
+    true 
+	// c18
+	;
+    zchar	// c20
+	=
+
+    // c21
+    uint16
+// c22
+	; 
+lengthOf 
+
+    // c24
+	= 
+      // c25
+	true 
+    // c26
+
+; 
+
+    // c27
+	}	// c28a
+	// c28b
+	options  // c29
+	{
+        // c30
+    len
+
+    =	// c32
+		1
+
+// c33
+  }
+// c34")).
+Eval vm_compute in ("<<<M2123>>>" ++ check (runes_of_ascii "options {
+    falsey = ""abc"";
+    roots = '0';
+    MetaDataX = '0';//
+    crc = 42// a // b
+    x = '0';
+}
+
+packet A {
+    repeat uint64 u128,
+    @tag(65535)
+    int16 options1 `line1
         line2`,
 }
 
 options {
-    lengthOf = string;
-}
-
-packet falsey {
-    @tag(1)
-    int16 repeatCount @lengthOf(charz) `a\`,
-    repeat u64 MetaDataX `say ""hi""`,
-}
-
-options {
-    x = ""abc""
-}
-
-MetaData BodyLength {
-    zchar[4294967296] zchar,
-}")).
-Eval vm_compute in ("<<<M4413>>>" ++ check (runes_of_ascii "options {
-}
-
-MetaData x_y_z {
-    string_ packetx,
-    metadata o,
-    char[3] charz,
-    zchar charz,
-}
-
-MetaData T {
-    zchar[3] len,
-    u x_y_z,
-    u64 A,
-}
-
-packet zchar {
-    @tag(4294967296)
-    @calculatedFrom(""" ++ [233]%N ++ runes_of_ascii "t" ++ [233]%N ++ runes_of_ascii """)
-    @calculatedFrom(""abc"")
-    match tag as tag {
-        """" : stringy,
-        """ ++ [28040; 24687]%N ++ runes_of_ascii """ : f32a,
-        4294967296 : matchKey,
-        0 : msg_type,
-        7 : Logon,
-        7 : trueish,
-    },
-    roots @calculatedFrom(""" ++ [233]%N ++ runes_of_ascii "t" ++ [233]%N ++ runes_of_ascii """),
-    BodyLength `" ++ [233]%N ++ runes_of_ascii "`,
-    repeat int zchar `
-    `,
-    @leftPad()
-    body @calculatedFrom(""" ++ [233]%N ++ runes_of_ascii "t" ++ [233]%N ++ runes_of_ascii """),
-}
-
-packet Packet {
-    @lengthOf(uint8x)
-    // @lengthOf(
-    i64_ {
-        u128 {
-            stringy,
-        },
-    },
-    T MetaDataX `u8 x,`,
-    @calculatedFrom("""")
-    @lengthOf(x_y_z)
-    @calculatedFrom(""1"")
-    uint32 charz @calculatedFrom(""`tick`"") `" ++ [233]%N ++ runes_of_ascii "`,
-    // @lengthOf(
-    string u8x @calculatedFrom(""\" ++ [233]%N ++ runes_of_ascii """) `line1
-    line2`,
-    @leftPad()
-    string tag @lengthOf(f32a) `" ++ [233]%N ++ runes_of_ascii "`,
-    @rightPad()
-    @tag(7)
-    @lengthOf(rootA)
-    // " ++ [128512]%N ++ runes_of_ascii " emoji
-    repeat T matchKey,
-    @lengthOf(metadata)
-    zchar[10] _x @lengthOf(a1),
-    @leftPad()
-    f32a o `{ , }`,
-}
-// packet A { u8 x, }")).
-Eval vm_compute in ("<<<M4402>>>" ++ check (runes_of_ascii "
-// @lengthOf(
-packet
-
-options1
-
-{ @lengthOf(
-
-i8i8  )i64_
-
-int  `{ , }` ,char[]	int 
-,  zchar[
-
-    00
-//	t
-  // packet A { u8 x, }
-    ]  len
-	,	} packet
-	u128
-{ 
-@tag( 3 	 //	t
-  )
-
-@calculatedFrom( 
-//
-  // @lengthOf(
-	  ""// no comment""
-
-    ) 
-options1 	 // packet A { u8 x, }
-{
-int16 	 //x
-
-  calculatedFrom
-@calculatedFrom( """ ++ [28040; 24687]%N ++ runes_of_ascii """ )
-,
-
-    chars
-@lengthOf(
-	calculatedFrom
-    )
-	,crc
-	{o @calculatedFrom( """ ++ [233]%N ++ runes_of_ascii "t" ++ [233]%N ++ runes_of_ascii """
-)
-, float u8x
-
-    ,repeat
-
-    metadata
-
-uint8x ,
-} ,
-}	,
-
-float64
-	options1,
-@leftPad
-    ( ) @lengthOf(
-
-Foo)  @calculatedFrom(	""packet""
-
-) 
-  //	t
-		// c
-char[  1 	 // c
-	]
-
-    i8i8
-
-@calculatedFrom( 
-""abc""
-    )
-
-`{ , }`
-
-,
-
-    @leftPad
-(
-    '0') T
-{int32
-	i8i8
-    `u8 x,` 
-	//
-		, match Z9_ as	string_  {
-
-    [  7 ,10
-
-, 65535,
-
-0 ,
-
-42 
-, 255
-,
-""\" ++ [233]%N ++ runes_of_ascii """
     // packet A { u8 x, }
-,
-""`tick`"" ]
-:Foo,  """ ++ [233]%N ++ runes_of_ascii "t" ++ [233]%N ++ runes_of_ascii """
-
-    : u8x  [  255
-
-,"""" ,0 ,
-    """" ,
-	""" ++ [233]%N ++ runes_of_ascii "t" ++ [233]%N ++ runes_of_ascii """,
-
-255
-, 4294967296
-
-    , 00
-
-    ] :
-	i64_
-
-    ,
-
-10  :
-Foo
-}
-,  
-      // trailing space 
-	pack@calculatedFrom(	""`tick`""	),	}
-,	a1 	 //	t
-`say ""hi""`
-
-, 
-}
-")).
-Eval vm_compute in ("<<<M1236>>>" ++ check (runes_of_ascii "
-packet
-roots
-    {f32 zchar @calculatedFrom( ""a	b""	) `crlf
-line`
-,
-// @lengthOf(
-/// triple
-uint8x
-`tab	here`// `tick` ""quote"" 'q'
-, @rightPad ( // a // b
-)
-@rightPad ( '\x00' ) string int
-@lengthOf( body
-// " ++ [128512]%N ++ runes_of_ascii " emoji
-//	t
-)
-,charz { repeat zchar{BodyLength
-// " ++ [27880; 37322]%N ++ runes_of_ascii "
-// c
-@lengthOf( int // a // b
-) , } , }	, @rightPad (
-' ' ) repeat
-    asx metadata  `it's`
-    ,
-float64 trueish ,repeat//	t
-char[ 42] // " ++ [128512]%N ++ runes_of_ascii " emoji
-body`a\` ,	@rightPad
-    (
-'0' )u32  body
-    `tab	here` , } // `tick` ""quote"" 'q'
-packet chars { @calculatedFrom(
-    ""packet"" ) zchar[ 65535
-]_x , float
-    As`line1
-line2`// c
-, u64 asx @calculatedFrom(
-""1"")
-`u8 x,`
-,crc	@lengthOf(  msg_type ) ,
-    @tag(
-    00 ) //x
-@rightPad
-    (// @lengthOf(
-' ' // c
-) /// triple
-@calculatedFrom( """ ++ [233]%N ++ runes_of_ascii "t" ++ [233]%N ++ runes_of_ascii """ // " ++ [128512]%N ++ runes_of_ascii " emoji
-) uint8
-    calculatedFrom , }options {  Packet =' '
-; Logon
-/// triple
-// trailing space 
-=255
-BodyLength =""// no comment""
-} options { float =
-""a	b"" ; f32a= """ ++ [28040; 24687]%N ++ runes_of_ascii """
-    //	t
-    len =
-    uint64 ;
-    calculatedFrom='0' // " ++ [27880; 37322]%N ++ runes_of_ascii "
-; }")).
-Eval vm_compute in ("<<<M4050>>>" ++ check (runes_of_ascii "
-MetaData 
-        //
-	body {  u16
-    roots	`say ""hi""`
-,
-
-char[ 65535
-
-    ]  o
-
-    ,uint32 
-Z9_ , char
-	trueish`crlf
-line` ,
-	}
-
-packet	crc	// packet A { u8 x, }
-    { u128
-
-    ,	repeat
-char[]
-    trueish
-, 
-string 
-asx	@lengthOf(  zchar )  // c
-
-`crlf
-line`,int{ int  u 	 //
-    ,} ,
-    @tag(
-10 )
-
-// @lengthOf(
-		zchar[ 
-//x
-	//x
-	65535] 	 /// triple
-
-zchar @calculatedFrom( """ ++ [28040; 24687]%N ++ runes_of_ascii """)`a\`  ,
-	@rightPad
-
-    ( '\x00'
-    ) string crc
-@lengthOf(
-    // trailing space 
-    o ) 
-,
-
-match rootA
-    as len	{	[ 10 ,
-
-3	// " ++ [27880; 37322]%N ++ runes_of_ascii "
-	  ,
-
-""\n"" , """ ++ [233]%N ++ runes_of_ascii "t" ++ [233]%N ++ runes_of_ascii """
-    ,	""packet"" ] :
-// a // b
-    leftPad
-, 65535  : 
-pack},
-
-zchar[
-	65535
-    ] 
-	    //x
-	asx
-
-`u8 x,`  
-  // a // b
-  ,i16 
-    // @lengthOf(
-	// " ++ [27880; 37322]%N ++ runes_of_ascii "
-
-	roots
-    `u8 x,`
-,
-
-    // " ++ [128512]%N ++ runes_of_ascii " emoji
-//
-    @leftPad
-
-    ( ) 
-f64
-	Packet
-    ,
-    }  packet
-tag
-    {
-
-@rightPad	//
-('0')repeat 
-char[ 
-00 
-] crc ,
-
-    }
-packet
-
-    stringy {  char[] 
-roots	`" ++ [233]%N ++ runes_of_ascii "` //	t
-      ,
-
-    }")).
-Eval vm_compute in ("<<<M258>>>" ++ check (runes_of_ascii "
-packet leftPad
-    {}	packet u{@leftPad
-( ' ' )
-    char[65535 ]leftPad, int8
-packetx ,
-string stringy `crlf
-line` ,@leftPad
-( // @lengthOf(
-' ' // " ++ [27880; 37322]%N ++ runes_of_ascii "
-) // " ++ [128512]%N ++ runes_of_ascii " emoji
-i64 x
-@lengthOf( u )
-    `" ++ [28040; 24687; 31867; 22411]%N ++ runes_of_ascii "`	,@lengthOf( pack )
-// a // b
-//
-u64 asx  @lengthOf( repeatCount )
-    `u8 x,` , o A ,}	root packet charz{
-char[]repeatCount
-    //x
-    @lengthOf( tag ) ``
-,
-    repeat pack	`a\` , @calculatedFrom( ""// no comment""
-    //x
-    ) T { string rootA // " ++ [27880; 37322]%N ++ runes_of_ascii "
-@calculatedFrom(""{,}"" )  ,
-    }, repeat As
-    Foo
-, char[
-3] trueish ,@calculatedFrom(""""
-    )@lengthOf(
-metadata)@leftPad ('0'
-/// triple
-//x
-) repeat u64 float `{ , }`
-// " ++ [27880; 37322]%N ++ runes_of_ascii "
-// " ++ [128512]%N ++ runes_of_ascii " emoji
-, stringy {
-// packet A { u8 x, }
-// c
-metadata
-    { u8 f32a `two words` , repeat  char[ 007 ] f32a
-`
-` ,
-    } ,  u32 asx @calculatedFrom(""" ++ [233]%N ++ runes_of_ascii "t" ++ [233]%N ++ runes_of_ascii """
-) ,float64 i8i8 ,//x
-} ,
-// c
-// " ++ [27880; 37322]%N ++ runes_of_ascii "
-match lengthOf as zchar
-    /// triple
-    {
-    00 :o,  } , }")).
-Eval vm_compute in ("<<<M3624>>>" ++ check (runes_of_ascii "// top
-options // c0
-{
-    // c1
-LittleEndian = // c3a
-  // c3b
-true ; // c5
-StringPrefixLenType // c6a
-  // c6b
-= u8 // c8a
-  // c8b
-;
-    // c9
-ArrayPrefixLenType // c10a
-  // c10b
-= u8
-    // c12
-;
-    // c13
-} // c14a
-  // c14b
-packet // c15
-Ack // c16a
-  // c16b
-{
-    // c17
-} // c18a
-  // c18b
-root // c19
-packet // c20
-Quote
-    // c21
-{
-    // c22
-Ack // c23
-,
-    // c24
-InSym94
-    // c25
-{ // c26
-repeat Ack // c28a
-  // c28b
-,
-    // c29
-} , // c31
-u16 // c32a
-  // c32b
-msgKind // c33
-, // c34a
-  // c34b
-u16 OrderId // c36a
-  // c36b
-@lengthOf(
-    // c37
-Body // c38a
-  // c38b
-) // c39
-, // c40a
-  // c40b
-match
-    // c41
-msgKind // c42
-as
-    // c43
-Body // c44a
-  // c44b
-{ // c45a
-  // c45b
-[ // c46
-110 ,
-    // c48
-48 // c49a
-  // c49b
-] // c50
-:
-    // c51
-Ack // c52
-, }
-    // c54
-,
-    // c55
-} // c56a
-  // c56b
-")).
-Eval vm_compute in ("<<<M77>>>" ++ check (runes_of_ascii "  options
-{  T
-= ' ' }
-MetaData Pad
-    //x
-    {
-string_ u128  , u64 // @lengthOf(
-uint8x `two words` , int8 repeatCount
-, }
-    packet
-len{
-    Packet
-    `
-`
-,@calculatedFrom( ""a\""b""
-) zchar[
-    42 ]
-rootA ,
-    @calculatedFrom(
-""packet"" )
-@calculatedFrom( ""\n"" ) Packet @calculatedFrom( ""\" ++ [233]%N ++ runes_of_ascii """  )
-    `" ++ [28040; 24687; 31867; 22411]%N ++ runes_of_ascii "`, @leftPad
-    (
-    '\x00' )
-@leftPad (	)
-@rightPad (
-)
-repeat string_
-    {match asx // c
-as rootA {[
-""`tick`"",65535	]:
-falsey ,} , trueish
-, char Z9_`// not a comment` ,
-    Packet Logon `{ , }`, } ,@tag( 1 )
-    match x as pack//	t
-{
-1 :stringy // `tick` ""quote"" 'q'
-, [	42 ]:  x }  ,
-repeat//x
-i8 u8x , @calculatedFrom(""packet"") string_ // c
-@lengthOf( rootA ),	falsey
-@lengthOf( x )
-,} options
-{}
-root packet u { @lengthOf(x_y_z )	u
-    @calculatedFrom( """"
-)
-`two words`, }")).
-Eval vm_compute in ("<<<M4125>>>" ++ check (runes_of_ascii "packet repeatCount {
-    @tag(1)
-    @leftPad(' ')
-    @leftPad('\x00')
-    int16 trueish @lengthOf(len) `// not a comment`,
-    @calculatedFrom(""it's"")
-    f64 trueish @lengthOf(pack),
-    i64 int `u8 x,`,
-    int16 Packet,
-    repeat trueish {
-        char[65535] int @lengthOf(Foo) `crlf
-        line`,
-    },
-    match chars as u128 {
-        0123456789 : uint8x,
-        ""1"" : A,
-        ""packet"" : matchKey,
-        0 : crc,
-        ""abc"" : T,
-    },
-    @rightPad()
-    match a1 as u128 {
-        3 : lengthOf,
-        ""a\\"" : trueish,
-        007 : rootA,
-    },
-    @leftPad(' ')
-    string_ `tab	here`,
-    packetx @lengthOf(Header),
-    @tag(255)
-    @tag(42)
-    char[] packetx,// `tick` ""quote"" 'q'
+    int = ""// no comment""
+    msg_type = zchar[0123456789];
+    calculatedFrom = u8;
+    asx = """ ++ [28040; 24687]%N ++ runes_of_ascii """;
+    body = 10
 }
 
 options {
-    rootA = ' '
-    x_y_z = int8
-}")).
-Eval vm_compute in ("<<<M344>>>" ++ check (runes_of_ascii "// " ++ [27880; 37322]%N ++ runes_of_ascii "
-root packet _x {
-//	t
-// packet A { u8 x, }
-@rightPad (
-) zchar[
-    007]
-    Logon @calculatedFrom(""x y""),zchar[
-7]
-string_ @lengthOf(
-Packet /// triple
-)
-`two words`,
-@tag( 007 )	@calculatedFrom(
-    ""x y"" )repeat
-calculatedFrom { // packet A { u8 x, }
-zchar @calculatedFrom( """ ++ [233]%N ++ runes_of_ascii "t" ++ [233]%N ++ runes_of_ascii """
-    // `tick` ""quote"" 'q'
-    )	,
-int32 leftPad , } ,repeat body chars ,	@lengthOf(
-options1
-    ) repeat
-    //	t
-    char[
-255] Foo  ,
-// c
-//
-repeat MetaDataX
-    { pack, } ,char[
-7 ] repeatCount @calculatedFrom(""it's""  ) , }
-    // trailing space 
-    packet Packet {
-    Header
-// " ++ [27880; 37322]%N ++ runes_of_ascii "
-// @lengthOf(
-@lengthOf( uint8x ) `two words` ,} options//	t
-{  } root
-    // " ++ [27880; 37322]%N ++ runes_of_ascii "
-    packet msg_type
-{int32 //x
-body`" ++ [28040; 24687; 31867; 22411]%N ++ runes_of_ascii "`,
-    }
-")).
-Eval vm_compute in ("<<<M57>>>" ++ check (runes_of_ascii "root
-packet string_{ i32 uint8x @calculatedFrom( ""\" ++ [233]%N ++ runes_of_ascii """ ) , body ,@tag(// a // b
-0  ) Z9_
-    @calculatedFrom(
-""" ++ [28040; 24687]%N ++ runes_of_ascii """),
-@lengthOf( stringy	)  falsey
-    { repeat trueish { u64 i8i8 , }
-,  } ,
-char[] leftPad
-@lengthOf( falsey
-    // c
-    ),	@calculatedFrom(	""a	b""
-    )
-//x
-// " ++ [27880; 37322]%N ++ runes_of_ascii "
-char[]  BodyLength,//x
-match
-falsey as crc{255 :falsey ,[
-//x
-// @lengthOf(
-7,7] // @lengthOf(
-:
-//
-//x
-crc, ""a	b""// `tick` ""quote"" 'q'
-: i8i8,255  : a1
-, } ,Logon@lengthOf( _x // `tick` ""quote"" 'q'
-)
-, match	lengthOf as  o{ ""packet"" :	x_y_z ,} , } options
-{
-//	t
-// `tick` ""quote"" 'q'
-calculatedFrom
-=
-""// no comment""  ;
-    x
-    ='\x00' a1
-= ""abc"" ; x_y_z=
-65535 ; } packet Foo
-{ } packet o { }")).
-Eval vm_compute in ("<<<M750>>>" ++ check (runes_of_ascii "packet a1
-    {  repeat//
-tag
-f32a /// triple
-`crlf
-line`,
-    /// triple
-    char[  4294967296] u, char[ 3]o , @tag( 007) // trailing space 
-int ,} options // " ++ [128512]%N ++ runes_of_ascii " emoji
-{}packet pack{ charz @lengthOf(
-BodyLength ) `line1
-line2`
-,@tag(65535) match
-pack as asx
-{42 : msg_type ,	007// packet A { u8 x, }
-:
-T ,
-    4294967296: float , }	, // a // b
-@tag(4294967296)
-    u8
-stringy
-    @lengthOf(
-    msg_type ) , @calculatedFrom( ""abc""
-)
-repeat len ,@rightPad ( '0'
-    )string //
-int
-@lengthOf( i8i8
-    ) , } MetaData crc
-    { char[] u128 ,char[] T
-`a\`
-    ,
-    // " ++ [27880; 37322]%N ++ runes_of_ascii "
-    packetx	chars ,  float64 tag`{ , }` ,
-    MetaDataX charz ,}
-")).
-Eval vm_compute in ("<<<M602>>>" ++ check (runes_of_ascii "options
-{
-    x
-// " ++ [27880; 37322]%N ++ runes_of_ascii "
-// " ++ [128512]%N ++ runes_of_ascii " emoji
-= true trueish =007 ;float =
-    // trailing space 
-    int64;/// triple
-metadata= true //	t
-} options  { As= ""{,}""	;} packet
-    As{ @rightPad
-    ( '0' ) @leftPad // " ++ [27880; 37322]%N ++ runes_of_ascii "
-( '0' ) char[ 10
-]trueish
-// c
-//	t
-, @calculatedFrom( ""`tick`"" ) Foo
-{
-int64 packetx @calculatedFrom(	""a\""b"" ) `" ++ [28040; 24687; 31867; 22411]%N ++ runes_of_ascii "`
-, repeat int64 int // a // b
-, zchar[007
-    ] Header
-//
-//
-, repeat
-    body
-    , // " ++ [27880; 37322]%N ++ runes_of_ascii "
-}
-    , repeat char[0  ] u8x // packet A { u8 x, }
-, Pad ,
-@rightPad ( '0'  )
-f64 leftPad//	t
-`a\`	, repeat
-    rootA repeatCount `{ , }` , rootA float
-// packet A { u8 x, }
-//x
-`doc`, }")).
-Eval vm_compute in ("<<<M744>>>" ++ check (runes_of_ascii "// " ++ [128512]%N ++ runes_of_ascii " emoji
-options // c
-{
-Packet	= char[]a1	=
-    0 ;
-    BodyLength = char[]; } MetaData
-    BodyLength	{
-    T string_ `" ++ [28040; 24687; 31867; 22411]%N ++ runes_of_ascii "` , x_y_z
-    // trailing space 
-    stringy `say ""hi""`	,
-    char Packet`" ++ [28040; 24687; 31867; 22411]%N ++ runes_of_ascii "` , leftPad Packet
-    ,
-} packet packetx
-{
-    //x
-    match uint8x as T	{ [ /// triple
-""`tick`"" ,
-    0123456789 ,
-""// no comment"" ,
-    255 , ""abc"", 10 // c
-]
-: i64_ , [ ""{,}"" , ""a\""b"" ] : int
-, [0123456789 ,
-    //x
-    65535
-    , 255 // `tick` ""quote"" 'q'
-,255
-    ] // @lengthOf(
-: repeatCount , //x
-} // " ++ [128512]%N ++ runes_of_ascii " emoji
-, repeat char[ 255 ]  A ,	repeat Foo`tab	here`  ,}
-
-")).
-Eval vm_compute in ("<<<M377>>>" ++ check (runes_of_ascii "packet float { @leftPad ( ' ' )repeat
-metadata falsey
-,lengthOf matchKey , int32
-roots , int16 Pad@calculatedFrom( // " ++ [128512]%N ++ runes_of_ascii " emoji
-""\" ++ [233]%N ++ runes_of_ascii """)
-, // a // b
-lengthOf
-    @calculatedFrom( ""`tick`"")// c
-`" ++ [28040; 24687; 31867; 22411]%N ++ runes_of_ascii "` ,
-@lengthOf( metadata) i8i8
-,@rightPad(
-// packet A { u8 x, }
-//	t
-'0'
-) Foo ,
-    // trailing space 
-    @tag(
-10 //
-)chars	`
-`
-    , @tag( 7
-)
-    // " ++ [128512]%N ++ runes_of_ascii " emoji
-    @leftPad ( ) repeat zchar[ 255 ]
-u128
-, // c
-}
-    options {//	t
-msg_type =
-0	; // @lengthOf(
-u = ' ' x_y_z =65535 u128 // packet A { u8 x, }
-= char[] ; zchar	= zchar[ 3
-    ]
-; }
-
-")).
-Eval vm_compute in ("<<<M84>>>" ++ check (runes_of_ascii "MetaData rootA
-    {}
-options{ rootA= '\x00' zchar
-    ='0' rootA= float64 ;  trueish	= 3 i64_
-= float64 ; } options{
-    body
-= '0'
-    ;T= ""CRC32"";matchKey = char[] ; }	packet
-rootA {
-    // " ++ [128512]%N ++ runes_of_ascii " emoji
-    @lengthOf( //
-Z9_)
-    @rightPad('0' ) Packet calculatedFrom , }packet
-body
-    { match metadata
-as asx {
-    3 : Header 3: packetx	, [  10]
-:	Packet, """"
-// " ++ [27880; 37322]%N ++ runes_of_ascii "
-// @lengthOf(
-: pack
-,
-10  :
-    // packet A { u8 x, }
-    pack [  255 // `tick` ""quote"" 'q'
-, // `tick` ""quote"" 'q'
-""""
-    , 00 // a // b
-,""it's""] :
-x } ,
+    charz = true
+    metadata = char[];
+    Packet = true
 }
 
-")).
-Eval vm_compute in ("<<<M4144>>>" ++ check (runes_of_ascii "
-MetaData  o{
-    }packet 
-BodyLength
-	{@tag(
-
-    255
-
-    )zchar[
-
-    00 ]
-leftPad
-	@lengthOf(float )
-`" ++ [233]%N ++ runes_of_ascii "`
-
-    ,
-}
-	packet asx {@leftPad
-( )
-	char[]
-_x 
-,
-char[ 65535]/// triple
-trueish @calculatedFrom(
-""a\""b"" 
-)  ,
-
-int64 u ,
-match	x
-as u8x
-
-    {255	//	t
-    :	/// triple
-o
-, 65535 :
-
-asx ,
-
-""a\\""	:
-
-string_
-
-, ""\" ++ [233]%N ++ runes_of_ascii """ :
-    f32a ,
-
-    65535 
-:  //	t
-
-x_y_z 
-,7
-: uint8x
-}  ,
-	repeat
-	msg_type 
-{
-	u128 charz ``
-,
-
-u64 options1	, repeat
-a1 `` 
-, }
-
-,
-repeatCount 
-,}
-
-    // c")).
-Eval vm_compute in ("<<<M155>>>" ++ check (runes_of_ascii "packet T {
-    @lengthOf( MetaDataX )match
-    Packet as a1 { [ ""1""] : zchar ""{,}""
-    : _x ,} ,// @lengthOf(
-char[ 007 ]// a // b
-u128@lengthOf(
-zchar)
-// a // b
-// packet A { u8 x, }
-,string_ , @leftPad ( ' ')match MetaDataX as u128 { [ ""it's"" ,7 , 65535
-, 65535]	:  chars,""" ++ [28040; 24687]%N ++ runes_of_ascii """// c
-: u , 42 : zchar , }
-    , } options // `tick` ""quote"" 'q'
-{
-    matchKey =
-""a\""b""
-    }	MetaData
-    options1 { i16
-len , char[ 7
-] // packet A { u8 x, }
-crc ,u16 asx `say ""hi""` ,i64 zchar, } // " ++ [27880; 37322]%N)).
-Eval vm_compute in ("<<<M1373>>>" ++ check (runes_of_ascii "// @lengthOf(
-MetaData msg_type
-// `tick` ""quote"" 'q'
-// @lengthOf(
-{ string
-Logon ,
-i8 repeatCount
-    `// not a comment`, }
-packet i64_ {
-    // c
-    @leftPad(
-'0' )repeat repeatCount
-`u8 x,` , Header {// " ++ [27880; 37322]%N ++ runes_of_ascii "
-A{ uint32 T `crlf
-line` ,
-} , }, }
-MetaData Header// " ++ [27880; 37322]%N ++ runes_of_ascii "
-{
-    Header u `doc` ,
-    // " ++ [27880; 37322]%N ++ runes_of_ascii "
-    char[ 4294967296 ] u128
-, float32 falsey , char[ 10
-    ]
-roots`crlf
-line`
-    ,
-int64 calculatedFrom `say ""hi""` ,} root packet i64_ { /// triple
-}
-")).
-Eval vm_compute in ("<<<M736>>>" ++ check (runes_of_ascii "packet metadata { match trueish
-as body
-    { 0123456789
-    :A, 1
-    :
-    rootA [//
-""packet"" ,65535 , 65535 , ""a	b""
-    ,42 , ""x y"" , 1// @lengthOf(
-, 0 ]	:
-// packet A { u8 x, }
-// " ++ [128512]%N ++ runes_of_ascii " emoji
-u128 ,//	t
-10 :
-As ,
-    0123456789 :stringy ,
-""x y""	: BodyLength, } ,
-i64_ options1`a\` , } packet
-trueish {
-    /// triple
-    }packet BodyLength	{ i32 charz ,
-@calculatedFrom(// @lengthOf(
-""" ++ [28040; 24687]%N ++ runes_of_ascii """ )	repeat float32 asx `doc` , } // trailing space ")).
-Eval vm_compute in ("<<<M1211>>>" ++ check (runes_of_ascii "packet
-f32a {
-i64_  falsey ,match
-/// triple
-//
-i8i8 as _x { // " ++ [27880; 37322]%N ++ runes_of_ascii "
-0
-    //x
-    : Logon,[65535 , ""x y""
-    ]:Header ,
-4294967296//x
-: Foo, /// triple
-} ,
-@tag( 0123456789 )	u8x msg_type
-`say ""hi""`  , }  packet
-    // a // b
-    Z9_  {
-    repeatCount leftPad  `two words` // `tick` ""quote"" 'q'
-,
-}
-    MetaData
-calculatedFrom{ u charz `{ , }`
-,
-    u64 T //x
-`tab	here`, Foo	options1 `" ++ [233]%N ++ runes_of_ascii "` ,
-char[] x
-`doc` ,i8i8
-u8x  ,}
-
-")).
-Eval vm_compute in ("<<<M1306>>>" ++ check (runes_of_ascii "packet string_ { zchar[ 3 ] // c
-stringy @lengthOf( packetx  )`u8 x,` //
-, // `tick` ""quote"" 'q'
-f64 string_ ``, } MetaData leftPad{ char[
-    1 ] MetaDataX `crlf
-line` ,
-    metadata a1
-`tab	here` ,	T o `line1
-line2` , // " ++ [128512]%N ++ runes_of_ascii " emoji
-o
-trueish ,}options
-{ }
-MetaData
-    // @lengthOf(
-    T
-{Foo Logon
-    , Logon lengthOf , char[
-    00 ]
-    pack , char[7 ]
-// @lengthOf(
-// trailing space 
-i8i8 `` ,}
-")).
-Eval vm_compute in ("<<<M4462>>>" ++ check (runes_of_ascii "packet Foo {
-    Logon A `a\`,
-    a1 A,
-    @lengthOf(tag)
-    // trailing space 
-    x_y_z @lengthOf(leftPad) `it's`,
-    @tag(255)
-    match crc as roots {
-        """ ++ [233]%N ++ runes_of_ascii "t" ++ [233]%N ++ runes_of_ascii """ : Foo,
-        [10, 007, """ ++ [233]%N ++ runes_of_ascii "t" ++ [233]%N ++ runes_of_ascii """, ""a	b""] : x_y_z,
-    },// @lengthOf(
-}
-
-root packet As {
-}
-
-MetaData calculatedFrom {
-    Z9_ _x ``,
-}
-
-MetaData tag {
-    // " ++ [27880; 37322]%N ++ runes_of_ascii "
-    string body,
-    string options1,
-    i8i8 pack,
-}")).
-Eval vm_compute in ("<<<M4294>>>" ++ check (runes_of_ascii "
-root packet
-u128  {	match zchar
-
-    as
-msg_type// `tick` ""quote"" 'q'
-  	{
-7  
-  //	t
-    :
-lengthOf
-
-,  0123456789  :MetaDataX""{,}"" : o 
-,  255
-    // trailing space 
-    //
-: //
-	metadata
-    ,[
-
-1
-    ] :
-	A 
-,	[
-
-007
-,
-
-""a\\""
-
-    ,
-0123456789	, 
-255
-    ,""\" ++ [233]%N ++ runes_of_ascii """ ,  007	]
-: 
-    // `tick` ""quote"" 'q'
-  // packet A { u8 x, }
-falsey,
-}
-    ,
-    } // a // b
-")).
-Eval vm_compute in ("<<<M368>>>" ++ check (runes_of_ascii "packet f32a{
-    /// triple
-    @calculatedFrom( """" ) matchKey	@lengthOf(
-Packet	) `// not a comment` , match msg_type
-//	t
-// c
-as lengthOf {"""":Z9_ ,
-    ""`tick`""
-    : crc , // " ++ [27880; 37322]%N ++ runes_of_ascii "
-[ //
-""\n"" ]: T	,
-    ""x y""
-    :
-    // " ++ [128512]%N ++ runes_of_ascii " emoji
-    _x
-    ,// @lengthOf(
-[  ""a\""b"" //
-] :  u128 }
-,zchar[ 7 ]
-// trailing space 
-// a // b
-_x
-,repeat len MetaDataX ,}
-")).
-Eval vm_compute in ("<<<M816>>>" ++ check (runes_of_ascii "// " ++ [128512]%N ++ runes_of_ascii " emoji
-options{
-}
-    packet a1{
-// packet A { u8 x, }
-//x
-@lengthOf(Foo )
-    pack {
-repeat matchKey // " ++ [27880; 37322]%N ++ runes_of_ascii "
-leftPad,zchar[7 ] zchar `{ , }` // c
-,
-charz @lengthOf( // " ++ [128512]%N ++ runes_of_ascii " emoji
-x_y_z
-    )
-    `
-`
-    , } ,}  root packet roots { } options {
-    calculatedFrom =false ;o
-= int64
-;
-    u =
-""a\\""zchar = // packet A { u8 x, }
-42 ;	}
-
-")).
-Eval vm_compute in ("<<<M38>>>" ++ check (runes_of_ascii "  packet
-    i64_
-    {
-    Z9_ @lengthOf(
-charz)	`doc`
-    , Pad {  body @lengthOf( string_ ) //
-`say ""hi""`	, uint64 metadata@lengthOf(Logon )`say ""hi""` ,
-    zchar[ 3
-    ] f32a`{ , }` ,repeat uint8	leftPad
-/// triple
-/// triple
-,  }
-,char[] _x @lengthOf( As)
-    `
-` ,  char[ 65535
-    ]matchKey  `// not a comment`
-,}")).
-Eval vm_compute in ("<<<M3561>>>" ++ check (runes_of_ascii "// top
-options // c0a
-  // c0b
-{ // c1a
-  // c1b
-LittleEndian // c2
-=
-    // c3
-true
-    // c4
-; // c5
-}
-    // c6
-root
-    // c7
-packet // c8a
-  // c8b
-P // c9
-{ u16 a
-    // c12
-, // c13a
-  // c13b
-u32 Sum // c15
-@calculatedFrom(
-    // c16
-""CRC32"" // c17
-) // c18a
-  // c18b
-, // c19a
-  // c19b
-} // c20a
-  // c20b
-")).
-Eval vm_compute in ("<<<M1976>>>" ++ check (runes_of_ascii "MetaData
-    u { }  options {
-// c
-// @lengthOf(
-float = int8 ;rootA =false ; As =	int16 // `tick` ""quote"" 'q'
-repeatCount
-    // trailing space 
-    =
-    int16
-; u8x =
-    //	t
-    '\x00' ; ; } options	{
-    repeatCount
-= 0
-u128
-    //
-    = false ; i64_
-// trailing space 
-// `tick` ""quote"" 'q'
-= '0' ; //	t
-}
-")).
-Eval vm_compute in ("<<<M2070>>>" ++ check (runes_of_ascii "MetaData
-    u { }  options {
-// c
-// @lengthOf(
-float = int8 ;rootA =false ; As =	int16 // `tick` ""quote"" 'q'
-repeatCount
-    // trailing space 
-    =
-    int16
-; u8x =
-    //	<t
-    '\x00' ; } options	{
-    repeatCount
-= 0
-u128
-    //
-    = false ; i64_
-// trailing space 
-// `tick` ""quote"" 'q'
-= '0' ; //	t
-}
-")).
-Eval vm_compute in ("<<<M1978>>>" ++ check (runes_of_ascii "MetaData
-    u { }  options {
-// c
-// @lengthOf(
-float = int8 ;rootA =false ; As =	int16 // `tick` ""quote"" 'q'
-repeatCount
-    // trailing space 
-    =
-    int16
-; u8x =
-    //	t
-    '\x00' , } options	{
-    repeatCount
-= 0
-u128
-    //
-    = false ; i64_
-// trailing space 
-// `tick` ""quote"" 'q'
-= '0' ; //	t
-}
-")).
-Eval vm_compute in ("<<<M1965>>>" ++ check (runes_of_ascii "MetaData
-    u { }  options {
-// c
-// @lengthOf(
-float = int8 ;rootA =false ; As =	int16 // `tick` ""quote"" 'q'
-repeatCount
-    // trailing space 
-    =
-    int16
-; u8x 
-    //	t
-    '\x00' ; } options	{
-    repeatCount
-= 0
-u128
-    //
-    = false ; i64_
-// trailing space 
-// `tick` ""quote"" 'q'
-= '0' ; //	t
-}
-")).
-Eval vm_compute in ("<<<M1915>>>" ++ check (runes_of_ascii "MetaData
-    u { }  options {
-// c
-// @lengthOf(
-float = int8 ;rootA = ; As =	int16 // `tick` ""quote"" 'q'
-repeatCount
-    // trailing space 
-    =
-    int16
-; u8x =
-    //	t
-    '\x00' ; } options	{
-    repeatCount
-= 0
-u128
-    //
-    = false ; i64_
-// trailing space 
-// `tick` ""quote"" 'q'
-= '0' ; //	t
-}
-")).
-Eval vm_compute in ("<<<M197>>>" ++ check (runes_of_ascii "packet	zchar { char[]  i64_,
-    // " ++ [128512]%N ++ runes_of_ascii " emoji
-    @calculatedFrom(	""// no comment"" ) match charz
-    as tag
-{ [""it's""
-, 4294967296
-    ,/// triple
-""a	b""
-    , """ ++ [28040; 24687]%N ++ runes_of_ascii """
-,""" ++ [128512]%N ++ runes_of_ascii """
-    ,  255 ,007 ] // packet A { u8 x, }
-: i64_
-, [	0123456789 ,3
-, 00 ]: // `tick` ""quote"" 'q'
-Packet , [ """ ++ [233]%N ++ runes_of_ascii "t" ++ [233]%N ++ runes_of_ascii """ ]
-:a1 ,	}
-,
-    }
-")).
-Eval vm_compute in ("<<<M3716>>>" ++ check (runes_of_ascii "packet asx {
-    @calculatedFrom(""x y"")
-    packetx stringy,
-}
-
-MetaData As {
-    int8 float `" ++ [233]%N ++ runes_of_ascii "`,
-    int uint8x,
-    zchar[007] a1 `two words`,
-    // a // b
-    /// triple
-    char[10] msg_type,
-    uint32 matchKey `say ""hi""`,
-    // `tick` ""quote"" 'q'
-    //x
-    i32 zchar,
-}
-
-options {
-}")).
-Eval vm_compute in ("<<<M871>>>" ++ check (runes_of_ascii "packet len
-{@calculatedFrom(
-    ""x y"" ) @tag(3
-// packet A { u8 x, }
-// `tick` ""quote"" 'q'
-)
-//
-// c
-@tag( 1)
-    /// triple
-    match
-o as
-    Header { 007 : BodyLength
-    ,	""x y"" : zchar
-, [
-""abc""] : string_
-, } ,// c
-int32
-// packet A { u8 x, }
-// a // b
-leftPad , } // c")).
-Eval vm_compute in ("<<<M167>>>" ++ check (runes_of_ascii "options { roots
-=//x
-int64 }
-// @lengthOf(
-// @lengthOf(
-packet
-    int {
-char  zchar, repeat len {
-    f32a `" ++ [28040; 24687; 31867; 22411]%N ++ runes_of_ascii "`, } ,zchar[
-007 ]As
-    `it's`
-,  zchar[007
-    // a // b
-    ] uint8x @lengthOf(
-    //x
-    Foo)
-    ,
-// packet A { u8 x, }
-// packet A { u8 x, }
-}
-")).
-Eval vm_compute in ("<<<M907>>>" ++ check (runes_of_ascii "packet asx {
-@calculatedFrom( ""x y"" ) packetx	stringy ,	}MetaData As
-{ int8
-    float `" ++ [233]%N ++ runes_of_ascii "`,
-int
-uint8x, zchar[ 007  ] a1 `two words` ,
-// a // b
-/// triple
-char[	10
-]msg_type	, uint32 matchKey `say ""hi""` ,
-// `tick` ""quote"" 'q'
-//x
-i32 zchar,
-    } options {
-}")).
-Eval vm_compute in ("<<<M3688>>>" ++ check (runes_of_ascii "MetaData u8x
-{
-
-msg_type
-T	`it's`,
-    // `tick` ""quote"" 'q'
-    // trailing space 
-      zchar[4294967296
-] len	/// triple
-	, u32
-chars
-	`a\`
-    , metadata
-	calculatedFrom `{ , }` ,}  packet Z9_ {}
-
-    root
-    packet  Logon 
-{
-}
-	/// triple
-")).
-Eval vm_compute in ("<<<M4051>>>" ++ check (runes_of_ascii "MetaData _x {
-    As f32a `doc`,
-}
-
-packet x {
-    zchar[255] calculatedFrom,
-    string_ @calculatedFrom(""a	b""),
+packet Logon {
     @calculatedFrom(""" ++ [128512]%N ++ runes_of_ascii """)
-    @tag(4294967296)
-    @calculatedFrom(""a	b"")
-    char[0] i64_ `" ++ [28040; 24687; 31867; 22411]%N ++ runes_of_ascii "`,
-    @leftPad(' ')
-    repeat MetaDataX,
+    repeat packetx rootA,
 }")).
-Eval vm_compute in ("<<<M1544>>>" ++ check (runes_of_ascii "packet
-//	t
-// trailing space 
-_x {
-// packet A { u8 x, }
-// c
-char[
-3
-    ] u8x @lengthOf(
-u8x ) , """ ++ [128512]%N ++ runes_of_ascii """@calculatedFrom( // @lengthOf(
-)
-i16	Foo
-@lengthOf(	string_
-    )`doc`	, repeat	i64 metadata , @lengthOf( string_
-) i8 // c
-u  `line1
-line2`	,
-}
-")).
-Eval vm_compute in ("<<<M1532>>>" ++ check (runes_of_ascii "packet
-//	t
-// trailing space 
-_x {
-// packet A { u8 x, }
-// c
-char[
-3
-    ] u8x @lengthOf(
-u8x  , @calculatedFrom(""" ++ [128512]%N ++ runes_of_ascii """ // @lengthOf(
-)
-i16	Foo
-@lengthOf(	string_
-    )`doc`	, repeat	i64 metadata , @lengthOf( string_
-) i8 // c
-u  `line1
-line2`	,
-}
-")).
-Eval vm_compute in ("<<<M1502>>>" ++ check (runes_of_ascii "packet
-//	t
-// trailing space 
-_x {
-// packet A { u8 x, }
-// c
+Eval vm_compute in ("<<<M2053>>>" ++ check (runes_of_ascii "
+packet Frame {
 
-3
-    ] u8x @lengthOf(
-u8x ) , @calculatedFrom(""" ++ [128512]%N ++ runes_of_ascii """ // @lengthOf(
-)
-i16	Foo
-@lengthOf(	string_
-    )`doc`	, repeat	i64 metadata , @lengthOf( string_
-) i8 // c
-u  `line1
-line2`	,
-}
-")).
-Eval vm_compute in ("<<<M4081>>>" ++ check (runes_of_ascii "MetaData u {
-}
+u8  HK
 
-options {
-    // c
-    // @lengthOf(
-    float = int8;
-    rootA = false;
-    As = int16// `tick` ""quote"" 'q'
-    repeatCount = int16;
-    u8x = '\x00';
-}
+    ,	u8
 
-options {
-    repeatCount = 0
-    u128 = false;
-    i64_ = '0'//	t
-}")).
-Eval vm_compute in ("<<<M1641>>>" ++ check (runes_of_ascii "packet
-//	t
-// trailing space 
-_x {
-// packet A { u8 x, }
-// c
-char[
-3
-    ] u8x @lengthOf(
-u8x ) , @calculatedFrom(""" ++ [128512]%N ++ runes_of_ascii """ // @lengthOf(
-)
-i16	Foo
-@lengthOf(	string_
-    )`doc`	, repeat	i64 metadata , @lengthOf( string_
-) i8 // c
-u")).
-Eval vm_compute in ("<<<M898>>>" ++ check (runes_of_ascii "packet metadata {@lengthOf(
-i8i8
-)match BodyLength as
-    Foo
+    BK
+    , u8 
+TK	,	match HK
+as
+    Hdr
+
+    {1  :HdrA, 2 :
+	HdrB	, 
+} ,
+match BK  as
+Body 
 {
-    3 : len ,} , body
-    @lengthOf(	roots
-    ),f32a x ,} root packet i8i8
-    {zchar[10
-    ]
-i64_  @calculatedFrom(""a\\""
-) `
-`
-, } // packet A { u8 x, }")).
-Eval vm_compute in ("<<<M1371>>>" ++ check (runes_of_ascii "
-packet  _x {	repeat
-    // packet A { u8 x, }
-    A{
-    int64 uint8x `tab	here` ,
+	1: 
+BodyA	, 2
+:BodyB
+    , }
+	,match
+    TK
+	as	Trl{
+
+    1 : TrlA ,
+
+    } , } packet HdrA 
+{
+	u8
+
+a , } 
+packet HdrB {	u16	b	,
+} packet
+    BodyA {
+	u32 c
+,
 }
-    , } packet Pad  { @tag(	65535
-)string _x //x
-@lengthOf( asx)  , @rightPad ( '0'	)u8 MetaDataX , u64 chars,
-    // c
-    }
+packet
+BodyB
 
-")).
-Eval vm_compute in ("<<<M3950>>>" ++ check (runes_of_ascii "MetaData
-body { string
-MetaDataX
+{
+u64 
+d
+    ,  }
 
-`" ++ [28040; 24687; 31867; 22411]%N ++ runes_of_ascii "` ,	}
-options  {
-	zchar 	 // packet A { u8 x, }
-=
-false
-	}  packet chars 	 // a // b
-{@tag( 
-42
-    )
-    len roots
+    packet TrlA{
+
+    u8 e ,
+}
+    root packet
+
+    Msg 
+{Frame
 
 ,
-    @rightPad( )Header
+u8
+	x
 
-@lengthOf(
-charz
-	),
+, 
 }
 ")).
-Eval vm_compute in ("<<<M3480>>>" ++ check (runes_of_ascii "// top
-packet // c0
-chars // c1
-{ // c2
-} // c3
-packet // c4
-MetaDataX // c5
-{ // c6
-@tag( // c7
-42 // c8
-) // c9
-i16 // c10
-string_ // c11
-, // c12
-repeat // c13
-x // c14
-`say ""hi""` // c15
-, // c16
-} // c17
-")).
-Eval vm_compute in ("<<<M664>>>" ++ check (runes_of_ascii "root packet // `tick` ""quote"" 'q'
-metadata {uint64// @lengthOf(
-rootA `it's`,	}
-    packet Header  {} options { Z9_// @lengthOf(
-= 255 ;
-    metadata = int32; trueish=' ' ;
-    i64_ = '\x00' stringy= 00 }
-")).
-Eval vm_compute in ("<<<M1739>>>" ++ check (runes_of_ascii "options { trueish = ""`tick`"" ; string_= """ ++ [233]%N ++ runes_of_ascii "t" ++ [233]%N ++ runes_of_ascii """
-    // c
-    } root
-    packet body [ stringy @calculatedFrom(
-""a	b"" ) `line1
-line2` , }
-packet Logon {
-    @leftPad(
-    ' ' ) //	t
-u16 string_ `u8 x,` ,
-}
-")).
-Eval vm_compute in ("<<<M1736>>>" ++ check (runes_of_ascii "options { trueish = ""`tick`"" ; string_= """ ++ [233]%N ++ runes_of_ascii "t" ++ [233]%N ++ runes_of_ascii """
-    // c
-    } root
-    packet body  stringy @calculatedFrom(
-""a	b"" ) `line1
-line2` , }
-packet Logon {
-    @leftPad(
-    ' ' ) //	t
-u16 string_ `u8 x,` ,
-}
-")).
-Eval vm_compute in ("<<<M1830>>>" ++ check (runes_of_ascii "options { trueish = ""`tick`"" ; string_= """ ++ [233]%N ++ runes_of_ascii "t" ++ [233]%N ++ runes_of_ascii """
-    // c
-    } root
-    packet body { stringy @calculatedFrom(
-""a	b"" ) `line1
-line2` , }
-packet Logon {
-    @leftPad(
-    ' ' ) //	t
-u16 string_ `u8 x,`")).
-Eval vm_compute in ("<<<M162>>>" ++ check (runes_of_ascii "MetaData
-    lengthOf
-{
-char[0123456789] calculatedFrom ,
-char[ 0
-]
-options1
+Eval vm_compute in ("<<<M98>>>" ++ check (runes_of_ascii "packet// a // b
+stringy  {
+    Logon { match
+    string_ as
+    i64_
+{ ""x y"":
+string_
     ,
-    } MetaData  repeatCount
-{ // packet A { u8 x, }
-u64 len ,
-    stringy x_y_z `it's` // a // b
-, f32 As ,	}
-")).
-Eval vm_compute in ("<<<M1606>>>" ++ check (runes_of_ascii "packet
-//	t
-// trailing space 
-_x {
-// packet A { u8 x, }
+// " ++ [27880; 37322]%N ++ runes_of_ascii "
+// `tick` ""quote"" 'q'
+""`tick`"" : string_
+,  1// " ++ [27880; 37322]%N ++ runes_of_ascii "
+:
+/// triple
 // c
-char[
-3
-    ] u8x @lengthOf(
-u8x ) , @calculatedFrom(""" ++ [128512]%N ++ runes_of_ascii """ // @lengthOf(
-)
-i16	Foo
-@lengthOf(	string_
-    )`doc`	, repeat	i64")).
-Eval vm_compute in ("<<<M4142>>>" ++ check (runes_of_ascii "MetaData chars {
-    int64 metadata,
-    char[00] stringy,
-    f64 Foo,
+float , [ ""1""
+    ] :
+options1
+    // " ++ [27880; 37322]%N ++ runes_of_ascii "
+    ,} , zchar[1 ] crc@calculatedFrom( """") `two words` , f32a , float32 lengthOf ,
 }
-
-options {
-}
-
-options {
-    As = char[4294967296]
-    A = ""x y""
-    options1 = float32
-    Logon = '\x00';
-}")).
-Eval vm_compute in ("<<<M515>>>" ++ check (runes_of_ascii "// " ++ [27880; 37322]%N ++ runes_of_ascii "
-MetaData// a // b
-int
+, @tag(255) u8x @calculatedFrom( // packet A { u8 x, }
+""abc""
+) `a\` , }
+")).
+Eval vm_compute in ("<<<M347>>>" ++ check (runes_of_ascii "packet  f32a { }packet
+metadata
 {
-    // `tick` ""quote"" 'q'
-    char[
-    4294967296 ] packetx
-    `line1
-line2`,rootA // trailing space 
-matchKey`two words`, matchKey Packet , }")).
-Eval vm_compute in ("<<<M4416>>>" ++ check (runes_of_ascii "// top
-MetaData float {
-    // c2
-    float64 charz `
-    `,
-    // c6
-}
-
-// c7
-root packet chars {
-    // c11
-    @rightPad('0')
-    // c15
-    Foo,
-    // c17
-}
-// c18")).
-Eval vm_compute in ("<<<M2417>>>" ++ check (runes_of_ascii "// c
-packet x { @lengthOf( metadata ) repeat lengthOf lengthOf
-,a1{
-trueish	,// c
-repeat//	t
-MetaDataX , } , zchar[
-    42	] rootA // `tick` ""quote"" 'q'
-,
-    }
-")).
-Eval vm_compute in ("<<<M3825>>>" ++ check (runes_of_ascii "packet o {
-    asx @calculatedFrom(""CRC32"") `it's`,// @lengthOf(
-    @tag(255)
-    int16 T,
-    string msg_type `
-        `,
-}// trailing space 
-
-packet Z9_ {
+@calculatedFrom(
+""\" ++ [233]%N ++ runes_of_ascii """
+) repeat _x { string
+    // a // b
+    falsey , } ,
+@calculatedFrom( ""it's"" ) As leftPad `a\`
+,	@calculatedFrom( ""abc""
+) char[ //	t
+0 ]roots	,  @tag(
+    00 )match Pad as	roots
+{ 10 :x_y_z , 00 :  len [ ""// no comment""	]// a // b
+:  T }
+    , a1 Header `" ++ [233]%N ++ runes_of_ascii "`
+, // " ++ [27880; 37322]%N ++ runes_of_ascii "
 }")).
-Eval vm_compute in ("<<<M3362>>>" ++ check (runes_of_ascii "// top
-packet // c0a
-  // c0b
-x
-    // c1
-{ @rightPad
+Eval vm_compute in ("<<<M305>>>" ++ check (runes_of_ascii "options
+{
+}
+root
+    // a // b
+    packet x //	t
+{ match
+    len as x{ [	7 , 42 ,	007 , //x
+255 // trailing space 
+, ""// no comment""
+// `tick` ""quote"" 'q'
+// " ++ [128512]%N ++ runes_of_ascii " emoji
+]:x_y_z, ""`tick`"" : u128
+, 3 : string_
+    /// triple
+    ,
+[	""CRC32""  ] : trueish ,4294967296 :Foo ,
+[ 0 ]
+: lengthOf } , }")).
+Eval vm_compute in ("<<<M496>>>" ++ check (runes_of_ascii "root packet tag float64 }  packet MetaDataX{char[007	]
+// c
+/// triple
+asx  @calculatedFrom( ""a\""b""
+) `say ""hi""`// " ++ [27880; 37322]%N ++ runes_of_ascii "
+,  @tag(4294967296 )
+    char[1//x
+] packetx @calculatedFrom(""a\""b""
+    ) ,
+// " ++ [128512]%N ++ runes_of_ascii " emoji
+// a // b
+@calculatedFrom(""" ++ [233]%N ++ runes_of_ascii "t" ++ [233]%N ++ runes_of_ascii """  ) repeat pack // " ++ [27880; 37322]%N ++ runes_of_ascii "
+,
+    } // c")).
+Eval vm_compute in ("<<<M514>>>" ++ check (runes_of_ascii "root packet tag { }  packet MetaDataX{ {char[007	]
+// c
+/// triple
+asx  @calculatedFrom( ""a\""b""
+) `say ""hi""`// " ++ [27880; 37322]%N ++ runes_of_ascii "
+,  @tag(4294967296 )
+    char[1//x
+] packetx @calculatedFrom(""a\""b""
+    ) ,
+// " ++ [128512]%N ++ runes_of_ascii " emoji
+// a // b
+@calculatedFrom(""" ++ [233]%N ++ runes_of_ascii "t" ++ [233]%N ++ runes_of_ascii """  ) repeat pack // " ++ [27880; 37322]%N ++ runes_of_ascii "
+,
+    } // c")).
+Eval vm_compute in ("<<<M660>>>" ++ check (runes_of_ascii "root packet tag { }  packet MetaDataX{char[007	]
+// c
+/// triple
+asx  @calculatedFrom( ""a\""b""
+) `say ""h$i""`// " ++ [27880; 37322]%N ++ runes_of_ascii "
+,  @tag(4294967296 )
+    char[1//x
+] packetx @calculatedFrom(""a\""b""
+    ) ,
+// " ++ [128512]%N ++ runes_of_ascii " emoji
+// a // b
+@calculatedFrom(""" ++ [233]%N ++ runes_of_ascii "t" ++ [233]%N ++ runes_of_ascii """  ) repeat pack // " ++ [27880; 37322]%N ++ runes_of_ascii "
+,
+    } // c")).
+Eval vm_compute in ("<<<M610>>>" ++ check (runes_of_ascii "root packet tag { }  packet MetaDataX{char[007	]
+// c
+/// triple
+asx  @calculatedFrom( ""a\""b""
+) `say ""hi""`// " ++ [27880; 37322]%N ++ runes_of_ascii "
+,  @tag(4294967296 )
+    char[1//x
+] packetx @calculatedFrom(""a\""b""
+    , )
+// " ++ [128512]%N ++ runes_of_ascii " emoji
+// a // b
+@calculatedFrom(""" ++ [233]%N ++ runes_of_ascii "t" ++ [233]%N ++ runes_of_ascii """  ) repeat pack // " ++ [27880; 37322]%N ++ runes_of_ascii "
+,
+    } // c")).
+Eval vm_compute in ("<<<M1993>>>" ++ check (runes_of_ascii "  // top
+	  packet// c0
+  o	// c1
+
+{ // c2
+  repeat 	 // c3
+  Logon  // c4
+
+  uint8x// c5
+	  ,// c6
+
+  }  // c7
+    	options // c8
+	  {	// c9
+      asx	// c10
+	= 	 // c11
+
+zchar[	// c12
+3// c13
+]// c14
+stringy 	 // c15
+
+=  // c16
+  '\x00' // c17
+  	}  // c18
+")).
+Eval vm_compute in ("<<<M553>>>" ++ check (runes_of_ascii "root packet tag { }  packet MetaDataX{char[007	]
+// c
+/// triple
+asx  @calculatedFrom( ""a\""b""
+) // " ++ [27880; 37322]%N ++ runes_of_ascii "
+,  @tag(4294967296 )
+    char[1//x
+] packetx @calculatedFrom(""a\""b""
+    ) ,
+// " ++ [128512]%N ++ runes_of_ascii " emoji
+// a // b
+@calculatedFrom(""" ++ [233]%N ++ runes_of_ascii "t" ++ [233]%N ++ runes_of_ascii """  ) repeat pack // " ++ [27880; 37322]%N ++ runes_of_ascii "
+,
+    } // c")).
+Eval vm_compute in ("<<<M632>>>" ++ check (runes_of_ascii "root packet tag { }  packet MetaDataX{char[007	]
+// c
+/// triple
+asx  @calculatedFrom( ""a\""b""
+) `say ""hi""`// " ++ [27880; 37322]%N ++ runes_of_ascii "
+,  @tag(4294967296 )
+    char[1//x
+] packetx @calculatedFrom(""a\""b""
+    ) ,
+// " ++ [128512]%N ++ runes_of_ascii " emoji
+// a // b
+@calculatedFrom(""" ++ [233]%N ++ runes_of_ascii "t" ++ [233]%N ++ runes_of_ascii """")).
+Eval vm_compute in ("<<<M1865>>>" ++ check (runes_of_ascii "
+
+  MetaData
+
+lengthOf {char[  0123456789
+
+]  calculatedFrom
+, char[
+    0
+
+    ]
+options1	,} MetaData
+repeatCount
+
+{ // packet A { u8 x, }
+  	u64
+	len ,
+
+stringy
+	x_y_z 
+`it's`// a // b
+  ,f32
+    As , }
+")).
+Eval vm_compute in ("<<<M622>>>" ++ check (runes_of_ascii "root packet tag { }  packet MetaDataX{char[007	]
+// c
+/// triple
+asx  @calculatedFrom( ""a\""b""
+) `say ""hi""`// " ++ [27880; 37322]%N ++ runes_of_ascii "
+,  @tag(4294967296 )
+    char[1//x
+] packetx @calculatedFrom(""a\""b""
+    ) ,")).
+Eval vm_compute in ("<<<M470>>>" ++ check (runes_of_ascii "packet
+    // `tick` ""quote"" 'q'
+    crc
+// packet A { u8 x, }
+//	t
+{
+u32 a1 ,
+    // trailing space 
+    roots
+charz //
+`two words`,	}
+    MetaData int {
+} /// triple@leftpad")).
+Eval vm_compute in ("<<<M417>>>" ++ check (runes_of_ascii "packet
+    // `tick` ""quote"" 'q'
+    crc
+// packet A { u8 x, }
+//	t
+{
+u32 a1 ,
+    // trailing space 
+    float32
+charz //
+`two words`,	}
+    MetaData int {
+} /// triple")).
+Eval vm_compute in ("<<<M387>>>" ++ check (runes_of_ascii "crc
+    // `tick` ""quote"" 'q'
+    packet
+// packet A { u8 x, }
+//	t
+{
+u32 a1 ,
+    // trailing space 
+    roots
+charz //
+`two words`,	}
+    MetaData int {
+} /// triple")).
+Eval vm_compute in ("<<<M394>>>" ++ check (runes_of_ascii "packet
+    // `tick` ""quote"" 'q'
+    crc
+// packet A { u8 x, }
+//	t
+
+u32 a1 ,
+    // trailing space 
+    roots
+charz //
+`two words`,	}
+    MetaData int {
+} /// triple")).
+Eval vm_compute in ("<<<M2074>>>" ++ check (runes_of_ascii "packet A {
+    match k as n {
+        [
+            1, ""bb"", 007, ""d"", 5,
+            ""f"", 7, ""h"", 9, ""j"",
+            11, ""l""
+        ] : B,
+        2 : C,
+    },
+}")).
+Eval vm_compute in ("<<<M457>>>" ++ check (runes_of_ascii "packet
+    // `tick` ""quote"" 'q'
+    crc
+// packet A { u8 x, }
+//	t
+{
+u32 a1 ,
+    // trailing space 
+    roots
+charz //
+`two words`,	}
+    MetaData int {")).
+Eval vm_compute in ("<<<M1483>>>" ++ check (runes_of_ascii "root packet // c1
+P
+    // c2
+{
     // c3
-( // c4a
-  // c4b
-) repeat roots
+repeat // c4
+string ss // c6
+,
     // c7
-Logon // c8
-`doc`
+repeat // c8
+u16
     // c9
-, } // c11a
-  // c11b
+ns
+    // c10
+, // c11
+}
+    // c12
 ")).
-Eval vm_compute in ("<<<M2328>>>" ++ check (runes_of_ascii "// c
-p?acket x { @lengthOf( metadata ) repeat lengthOf
-,a1{
-trueish	,// c
-repeat//	t
-MetaDataX , } , zchar[
-    42	] rootA // `tick` ""quote"" 'q'
-,
-    }
-")).
-Eval vm_compute in ("<<<M2331>>>" ++ check (runes_of_ascii "// c
-x packet { @lengthOf( metadata ) repeat lengthOf
-,a1{
-trueish	,// c
-repeat//	t
-MetaDataX , } , zchar[
-    42	] rootA // `tick` ""quote"" 'q'
-,
-    }
-")).
-Eval vm_compute in ("<<<M2395>>>" ++ check (runes_of_ascii "// c
-packet x { @lengthOf( metadata ) repeat lengthOf
-a1{
-trueish	,// c
-repeat//	t
-MetaDataX , } , zchar[
-    42	] rootA // `tick` ""quote"" 'q'
-,
-    }
-")).
-Eval vm_compute in ("<<<M2171>>>" ++ check (runes_of_ascii "options{
-_x
-= true
-} options
-{ o	= /// triple
-false
-    ; chars
-= ""\n"" } root packet	Pad
-/// triple
-// packet A { u8 x, }
-chars	{
-    // a // b
-    ,}")).
-Eval vm_compute in ("<<<M4292>>>" ++ check (runes_of_ascii "  root  packet
-leftPad
-	{ 
-int64	BodyLength`// not a comment` ,@tag( 0 
-)
-@leftPad(
-
-    )
-	@tag(255
-
-)
-    repeat
-	Header  // @lengthOf(
-,
-}  // c
-")).
-Eval vm_compute in ("<<<M2349>>>" ++ check (runes_of_ascii "// c
-packet x { @lengthOf( metadata ) repeat lengthOf
-,a1{
-trueish	,// c
-repeat//	t
-MetaDataX , } , 
-    42	] rootA // `tick` ""quote"" 'q'
-,
-    }
-")).
-Eval vm_compute in ("<<<M2076>>>" ++ check (runes_of_ascii "{
-_x
-= true
-} options
-{ o	= /// triple
-false
-    ; chars
-= ""\n"" } root packet	Pad
-/// triple
-// packet A { u8 x, }
-{	chars
-    // a // b
-    ,}")).
-Eval vm_compute in ("<<<M1785>>>" ++ check (runes_of_ascii "options { trueish = ""`tick`"" ; string_= """ ++ [233]%N ++ runes_of_ascii "t" ++ [233]%N ++ runes_of_ascii """
-    // c
-    } root
-    packet body { stringy @calculatedFrom(
-""a	b"" ) `line1
-line2` , }
-packet")).
 Eval vm_compute in ("<<<M210>>>" ++ check (runes_of_ascii "packet
 i64_
 { f64 float,@tag( 0 ) @lengthOf(u )
@@ -2410,312 +1010,199 @@ i64_
 ,}
 MetaData matchKey {
 } packet roots { }")).
-Eval vm_compute in ("<<<M4009>>>" ++ check (runes_of_ascii "packet A {
+Eval vm_compute in ("<<<M2116>>>" ++ check (runes_of_ascii "packet A {
     match k as n {
         [
-            ""a"", ""bb"", 007, ""d"", ""e"",
+            ""a"", 22, ""c c"", 4, ""e"",
             66
         ] : B,
         2 : C,
     },
 }")).
-Eval vm_compute in ("<<<M1453>>>" ++ check (runes_of_ascii "
-packet
-    falsey { Header@calculatedFrom(""packet""  ) , char[
-    0123456789 ] packetx packetx
-    , } // `tick` ""quote"" 'q'")).
-Eval vm_compute in ("<<<M1127>>>" ++ check (runes_of_ascii "options  {
-}options
-{rootA =
-zchar[ 255 ];
-} options { Packet
-    // `tick` ""quote"" 'q'
-    =
-    0123456789; a1	= """" }
-")).
-Eval vm_compute in ("<<<M3325>>>" ++ check (runes_of_ascii "root packet matchKey { zchar[ 3 ]
+Eval vm_compute in ("<<<M1228>>>" ++ check (runes_of_ascii "root packet matchKey
 // c
-pack @calculatedFrom( ""a	b"" ) `doc` , } options { } MetaData A { int8 msg_type , }")).
-Eval vm_compute in ("<<<M3357>>>" ++ check (runes_of_ascii "root packet matchKey { zchar[ 3 ] pack @calculatedFrom( ""a	b"" ) `doc` , } options { } MetaData A { int8 msg_type ,
+{ zchar[ 3 ] pack @calculatedFrom( ""a	b"" ) `doc` , } options { } MetaData A { int8 msg_type , }")).
+Eval vm_compute in ("<<<M1260>>>" ++ check (runes_of_ascii "root packet matchKey { zchar[ 3 ] pack @calculatedFrom( ""a	b"" ) `doc` , } options { } MetaData A
 // c
-}")).
-Eval vm_compute in ("<<<M1478>>>" ++ check (runes_of_ascii "
-packet
-    falsey { Header@calcul" ++ [8232]%N ++ runes_of_ascii "atedFrom(""packet""  ) , char[
-    0123456789 ] packetx
-    , } // `tick` ""quote"" 'q'")).
-Eval vm_compute in ("<<<M1459>>>" ++ check (runes_of_ascii "
-packet
-    falsey { Header@calculatedFrom(""packet""  ) , char[
-    0123456789 ] packetx
-    } , // `tick` ""quote"" 'q'")).
-Eval vm_compute in ("<<<M2368>>>" ++ check (runes_of_ascii "// c
-packet x { @lengthOf( metadata ) repeat lengthOf
-,a1{
-trueish	,// c
-repeat//	t
-MetaDataX , } , zchar[
-    42")).
-Eval vm_compute in ("<<<M3739>>>" ++ check (runes_of_ascii "// @lengthOf(
-options {
-    u128 = ' '
-    chars = char;
-    float = ""// no comment""
-    repeatCount = false;
-}")).
-Eval vm_compute in ("<<<M35>>>" ++ check (runes_of_ascii "options { body = 42 ;Logon
-// @lengthOf(
-// " ++ [27880; 37322]%N ++ runes_of_ascii "
-=
-    '0'
-    ; metadata=
-""" ++ [128512]%N ++ runes_of_ascii """; Foo =true//
-i64_
-='\x00'  }
+{ int8 msg_type , }")).
+Eval vm_compute in ("<<<M307>>>" ++ check (runes_of_ascii "
+packet Logon // " ++ [27880; 37322]%N ++ runes_of_ascii "
+{f32 _x
+,} MetaData u8x {float32 leftPad, tag
+    leftPad `say ""hi""`
+    ,i16 tag `say ""hi""`,}
 ")).
-Eval vm_compute in ("<<<M3672>>>" ++ check (runes_of_ascii "packet  chars{
-}
+Eval vm_compute in ("<<<M257>>>" ++ check (runes_of_ascii "options
+{ u // a // b
+=42 x_y_z
+    =' ' ;msg_type =
+    true ; u
+=10 ;  } options { zchar =
+uint8
+;  } // c")).
+Eval vm_compute in ("<<<M1589>>>" ++ check (runes_of_ascii "packet	o
 
-packet	MetaDataX  { @tag(42	)
+    {
+	repeat 
+Logon uint8x,
+} 
+options {  asx
 
-    i16 
-string_
+// c
+=	zchar[
 
-,// c
-    repeat x 
-`say ""hi""`  , } ")).
-Eval vm_compute in ("<<<M3681>>>" ++ check (runes_of_ascii "MetaData trueish {
-    int falsey,
-    char[10] u,
-    zchar[007] leftPad,
-    string x `two words`,
-}")).
-Eval vm_compute in ("<<<M3870>>>" ++ check (runes_of_ascii "packet T {
-    @lengthOf(matchKey)
-    match u as crc {
-        [""it's"", ""CRC32"", 3] : Z9_,
+    3
+]  stringy =
+'\x00'}
+")).
+Eval vm_compute in ("<<<M921>>>" ++ check (runes_of_ascii "packet A {
+    Inner {
+        u8 x `a
+b`,
+        Deep {
+            u8 y `a
+b`,
+        },
     },
 }")).
-Eval vm_compute in ("<<<M2938>>>" ++ check (runes_of_ascii "packet A {
+Eval vm_compute in ("<<<M951>>>" ++ check (runes_of_ascii "packet A {
+    Inner {
+        u8 x `
+x`,
+        Deep {
+            u8 y `
+x`,
+        },
+    },
+}")).
+Eval vm_compute in ("<<<M866>>>" ++ check (runes_of_ascii "packet A {
   match k as n {
-    [""a"", ""bb"", ""c c"", ""d"", ""e"", ""f"", ""g"", ""h""] : B,
+    [""a"", 22, ""c c"", 4, ""e"", 66, ""g"", 8, ""i""] : B,
     2 : C
   },
 }")).
-Eval vm_compute in ("<<<M846>>>" ++ check (runes_of_ascii "packet
-// @lengthOf(
-// " ++ [128512]%N ++ runes_of_ascii " emoji
-len{ @calculatedFrom( ""it's"")
-    calculatedFrom msg_type
-, }
-")).
-Eval vm_compute in ("<<<M76>>>" ++ check (runes_of_ascii "MetaData
-chars {
-uint32 chars	`doc` , int64 float, // trailing space 
-u8
-pack `
-` ,
-    }
-")).
-Eval vm_compute in ("<<<M1395>>>" ++ check (runes_of_ascii "root packet SimpleMessage {
-    uint16 MsgType `" ++ [28040; 24687; 31867; 22411]%N ++ runes_of_ascii "`,
-    string JsonBody `Json" ++ [23383; 31526; 20018; 28040; 24687; 20307]%N ++ runes_of_ascii "`,
+Eval vm_compute in ("<<<M1449>>>" ++ check (runes_of_ascii "packet Inner
+
+{u8
+
+a , }	root packet
+	P
+	{ repeat
+
+    Inner items , u8
+    x
+
+    , 
 }")).
-Eval vm_compute in ("<<<M3273>>>" ++ check (runes_of_ascii "MetaData float { // c
-float64 charz `
+Eval vm_compute in ("<<<M1187>>>" ++ check (runes_of_ascii "MetaData float { float64
+// c
+charz `
 ` , } root packet chars { @rightPad ( '0' ) Foo , }")).
-Eval vm_compute in ("<<<M3483>>>" ++ check (runes_of_ascii "// c
-packet chars { } packet MetaDataX { @tag( 42 ) i16 string_ , repeat x `say ""hi""` , }")).
-Eval vm_compute in ("<<<M3516>>>" ++ check (runes_of_ascii "packet chars { } packet MetaDataX { @tag( 42 ) i16 string_ , repeat x `say ""hi""`
+Eval vm_compute in ("<<<M1398>>>" ++ check (runes_of_ascii "packet chars // c
+{ } packet MetaDataX { @tag( 42 ) i16 string_ , repeat x `say ""hi""` , }")).
+Eval vm_compute in ("<<<M1624>>>" ++ check (runes_of_ascii "packet A { match
+k as n { 
+[
+    ""a"",	22
+,""c c""
+
+    ,  4  ]: B	,	2
+
+    :	C 
+} ,  }")).
+Eval vm_compute in ("<<<M1128>>>" ++ check (runes_of_ascii "packet metadata { // c
+Logon { A `" ++ [28040; 24687; 31867; 22411]%N ++ runes_of_ascii "` , tag o , } , zchar len `// not a comment` , }")).
+Eval vm_compute in ("<<<M1377>>>" ++ check (runes_of_ascii "packet o { repeat Logon uint8x , } options { asx = zchar[ 3 ] stringy = '\x00' }
 // c
-, }")).
-Eval vm_compute in ("<<<M1461>>>" ++ check (runes_of_ascii "
-packet
-    falsey { Header@calculatedFrom(""packet""  ) , char[
-    0123456789 ] packetx")).
-Eval vm_compute in ("<<<M1353>>>" ++ check (runes_of_ascii "MetaData As { char[]calculatedFrom
-,x a1 , int16 //	t
-matchKey `two words` ,
-    }
 ")).
-Eval vm_compute in ("<<<M3224>>>" ++ check (runes_of_ascii "packet metadata { Logon { A
+Eval vm_compute in ("<<<M1365>>>" ++ check (runes_of_ascii "packet o { repeat Logon uint8x , } options { asx = zchar[
 // c
-`" ++ [28040; 24687; 31867; 22411]%N ++ runes_of_ascii "` , tag o , } , zchar len `// not a comment` , }")).
-Eval vm_compute in ("<<<M2216>>>" ++ check (runes_of_ascii "options
-{  options { BodyLength= u16 Header= f64 ; u128 =
-    true
-    ; } // a // b")).
-Eval vm_compute in ("<<<M3447>>>" ++ check (runes_of_ascii "packet o { repeat Logon uint8x , } options { // c
-asx = zchar[ 3 ] stringy = '\x00' }")).
-Eval vm_compute in ("<<<M4221>>>" ++ check (runes_of_ascii "MetaData T {
-    uint16 roots,
-    As lengthOf,
-    As trueish,
-    char[] Packet,
+3 ] stringy = '\x00' }")).
+Eval vm_compute in ("<<<M961>>>" ++ check (runes_of_ascii "packet A {
+    u32 crc @calculatedFrom(""x\
+y""),
+    @calculatedFrom(""x\
+y"") u8 y,
 }")).
-Eval vm_compute in ("<<<M2916>>>" ++ check (runes_of_ascii "packet A {
+Eval vm_compute in ("<<<M1326>>>" ++ check (runes_of_ascii "MetaData body { i64 pack `it's` , } packet stringy {
+// c
+int16 calculatedFrom , }")).
+Eval vm_compute in ("<<<M911>>>" ++ check (runes_of_ascii "packet A { Inner { match k as n { [1,22,007,4,5,66,7,8,9,10,11,12] : B, }, }, }")).
+Eval vm_compute in ("<<<M63>>>" ++ check (runes_of_ascii "MetaData
+    Packet { string Logon `" ++ [233]%N ++ runes_of_ascii "`
+,
+    int8
+    _x
+//	t
+// " ++ [27880; 37322]%N ++ runes_of_ascii "
+,
+}
+
+")).
+Eval vm_compute in ("<<<M231>>>" ++ check (runes_of_ascii "MetaData/// triple
+float {	f64
+    // trailing space 
+    u8x
+`
+` ,	}")).
+Eval vm_compute in ("<<<M783>>>" ++ check (runes_of_ascii "packet A {
   match k as n {
-    [""a"", 22, ""c c"", 4, ""e"", 66] : B,
+    [1, 22, 007] : B
     2 : C
   },
 }")).
-Eval vm_compute in ("<<<M3588>>>" ++ check (runes_of_ascii "packet order_item
-	{ u8 
-a ,
-} 
-root  packet
-	new_order 
-{ order_item
-
-, 
-u8
-
-x,}
-")).
-Eval vm_compute in ("<<<M3178>>>" ++ check (runes_of_ascii "packet A { u16 // a
- len // b
- @lengthOf( // c
- body // d
- ) // e
- `d` // f
- , }")).
-Eval vm_compute in ("<<<M3952>>>" ++ check (runes_of_ascii "MetaData repeatCount {
-}
-
-options {
-    // packet A { u8 x, }
-}
-// @lengthOf(")).
-Eval vm_compute in ("<<<M3533>>>" ++ check (runes_of_ascii "packet Inner {
-    u8 a,
-}
-root packet P {
-    Inner ref_obj,
-    u8 x,
-}
-")).
-Eval vm_compute in ("<<<M4385>>>" ++ check (runes_of_ascii "packet A {
-    B b `
-    x`,
-    B `
-    x`,
-    repeat B bs `
-    x`,
+Eval vm_compute in ("<<<M774>>>" ++ check (runes_of_ascii "packet A {
+  match k as n {
+    [1, 22] : B
+    2 : C
+  },
 }")).
-Eval vm_compute in ("<<<M3567>>>" ++ check (runes_of_ascii "root packet P {
-    u16 a,
-    u32 Sum @calculatedFrom(""CR\
-C32""),
-}
-")).
-Eval vm_compute in ("<<<M3008>>>" ++ check (runes_of_ascii "packet A {
-    B b `a
-b`,
-    B `a
-b`,
-    repeat B bs `a
-b`,
+Eval vm_compute in ("<<<M1286>>>" ++ check (runes_of_ascii "packet x { @rightPad ( ) // c
+repeat roots Logon `doc` , }")).
+Eval vm_compute in ("<<<M1793>>>" ++ check (runes_of_ascii "// a
+MetaData M {
+}// b
+
+// c
+MetaData N {
+}// d
+// e")).
+Eval vm_compute in ("<<<M1695>>>" ++ check (runes_of_ascii "MetaData trueish {
+    string trueish `it's`,
 }")).
-Eval vm_compute in ("<<<M1144>>>" ++ check (runes_of_ascii "packet
-    pack { int64 options1  ,
-// packet A { u8 x, }
-//
-}
-")).
-Eval vm_compute in ("<<<M842>>>" ++ check (runes_of_ascii "  root packet crc{ string uint8x
+Eval vm_compute in ("<<<M229>>>" ++ check (runes_of_ascii "packet float { }	packet
+body
+    { }
 //x
-// " ++ [128512]%N ++ runes_of_ascii " emoji
-`" ++ [233]%N ++ runes_of_ascii "` ,}
-// " ++ [27880; 37322]%N ++ runes_of_ascii "
 ")).
-Eval vm_compute in ("<<<M3829>>>" ++ check (runes_of_ascii "MetaData M {
-    u8 x `x
-        `,
-    T t `x
-        `,
-}")).
-Eval vm_compute in ("<<<M3381>>>" ++ check (runes_of_ascii "packet x { @rightPad ( ) repeat roots Logon // c
-`doc` , }")).
-Eval vm_compute in ("<<<M2823>>>" ++ check (runes_of_ascii "as @leftPad char true @leftPad f32 MetaData int16 Logon")).
-Eval vm_compute in ("<<<M4583>>>" ++ check (runes_of_ascii "packet A {
-    u8 x `a
-            b
-          c`,
-}")).
-Eval vm_compute in ("<<<M3157>>>" ++ check (runes_of_ascii "packet A {} packet B {} MetaData M {} options {}")).
-Eval vm_compute in ("<<<M4034>>>" ++ check (runes_of_ascii "root packet float {
-    repeat charz falsey,
-}")).
-Eval vm_compute in ("<<<M620>>>" ++ check (runes_of_ascii "  options { u8x =/// triple
-zchar[ 00 ] ; }")).
-Eval vm_compute in ("<<<M3017>>>" ++ check (runes_of_ascii "MetaData M {
-    u8 x `
-`,
-    T t `
-`,
-}")).
-Eval vm_compute in ("<<<M3524>>>" ++ check (runes_of_ascii "root packet P {
+Eval vm_compute in ("<<<M1435>>>" ++ check (runes_of_ascii "root packet P {
     char c,
     u8 x,
 }
 ")).
-Eval vm_compute in ("<<<M514>>>" ++ check (runes_of_ascii "root
-packet lengthOf { } options {}
+Eval vm_compute in ("<<<M311>>>" ++ check (runes_of_ascii "  options {
+    asx =
+    '0'
+;}
 ")).
-Eval vm_compute in ("<<<M4211>>>" ++ check (runes_of_ascii "MetaData zchar {
-    zchar[7] crc,
-}")).
-Eval vm_compute in ("<<<M2592>>>" ++ check (runes_of_ascii "packet A { x @calculatedFrom(c), }")).
-Eval vm_compute in ("<<<M979>>>" ++ check (runes_of_ascii "root packet calculatedFrom{ } 	 ")).
-Eval vm_compute in ("<<<M3018>>>" ++ check (runes_of_ascii "root packet A {
+Eval vm_compute in ("<<<M929>>>" ++ check (runes_of_ascii "root packet A {
     u8 x `
 `,
 }")).
-Eval vm_compute in ("<<<M3122>>>" ++ check (runes_of_ascii "packet A {
- u8 x `d" ++ [12]%N ++ runes_of_ascii "`, // c" ++ [12]%N ++ runes_of_ascii "
+Eval vm_compute in ("<<<M2084>>>" ++ check (runes_of_ascii "root packet pack {
+    // c
 }")).
-Eval vm_compute in ("<<<M3001>>>" ++ check (runes_of_ascii "packet A {
-    u8 x `a
-b`,
-}")).
-Eval vm_compute in ("<<<M917>>>" ++ check (runes_of_ascii "
-options {	i8i8 = ""a\\"" }")).
-Eval vm_compute in ("<<<M3255>>>" ++ check (runes_of_ascii "root
+Eval vm_compute in ("<<<M1168>>>" ++ check (runes_of_ascii "root packet
 // c
-packet pack { }")).
-Eval vm_compute in ("<<<M840>>>" ++ check (runes_of_ascii "packet matchKey
-{
-} //x")).
-Eval vm_compute in ("<<<M912>>>" ++ check (runes_of_ascii "
-packet rootA
-    {
+pack { }")).
+Eval vm_compute in ("<<<M1036>>>" ++ check (runes_of_ascii "packet A {
+}
+// c 	")).
+Eval vm_compute in ("<<<M1011>>>" ++ check (runes_of_ascii "packet A {
+}
+// c" ++ [8233]%N)).
+Eval vm_compute in ("<<<M1009>>>" ++ check (runes_of_ascii "packet A {
+}// c" ++ [8233]%N)).
+Eval vm_compute in ("<<<M1703>>>" ++ check (runes_of_ascii "options {
 }")).
-Eval vm_compute in ("<<<M3479>>>" ++ check (runes_of_ascii "MetaData o { }
-// c
-")).
-Eval vm_compute in ("<<<M3470>>>" ++ check (runes_of_ascii "// c
-MetaData o { }")).
-Eval vm_compute in ("<<<M3091>>>" ++ check (runes_of_ascii "// c" ++ [8202]%N ++ runes_of_ascii "
-packet A {
-}")).
-Eval vm_compute in ("<<<M2572>>>" ++ check (runes_of_ascii "packet A { x y, }")).
-Eval vm_compute in ("<<<M1019>>>" ++ check (runes_of_ascii "
-MetaData T { }
-")).
-Eval vm_compute in ("<<<M2723>>>" ++ check (runes_of_ascii "@tag( char[ as")).
-Eval vm_compute in ("<<<M376>>>" ++ check (runes_of_ascii "
-options{}")).
-Eval vm_compute in ("<<<M4268>>>" ++ check (runes_of_ascii "
-// c" ++ [8233]%N ++ runes_of_ascii "
-")).
-Eval vm_compute in ("<<<M241>>>" ++ check (runes_of_ascii "
-
-//x
-")).
-Eval vm_compute in ("<<<M2441>>>" ++ check (runes_of_ascii "uint8")).
-Eval vm_compute in ("<<<M319>>>" ++ check (runes_of_ascii "
-//
-")).
-Eval vm_compute in ("<<<M621>>>" ++ check (runes_of_ascii " 	 ")).
-Eval vm_compute in ("<<<M2829>>>" ++ check (runes_of_ascii "t" ++ [1414]%N ++ runes_of_ascii "I")).
-Eval vm_compute in ("<<<M2506>>>" ++ check (runes_of_ascii """")).
+Eval vm_compute in ("<<<M1015>>>" ++ check (runes_of_ascii "// c" ++ [8239]%N)).
